@@ -5,6 +5,17 @@ import VrpModel.Generated.C12Chain
 
 * T4 obligations: the chain of rule groups and the sub-check lists of the model equal what the translator extracted
   from `vrp-pragmatic/src/checker/*.rs`.
+* `check_eq_nil`: the checker accepts iff no index underflow happens and every sub-check of every group accepts.
+* completeness (specification ⟹ sub-check accepts): `limits_complete`, `routing_complete`, `vehicles_complete`,
+  `presence_complete` (the partition theorem, by counting), combined in `checker_complete_partial`
+  (load / relations / breaks / matcher / groups acceptance are hypotheses there).
+* breach lemmas, two halves each (`breach_*_invalid`: the specification is violated; `checker_rejects_*`: the model checker
+  rejects): limit distance / duration / tour size, unknown vehicle, vehicle used twice, leg mismatch (arrival, departure and
+  distance shifts), overall statistic, load above capacity (checker half), assigned and unassigned, unknown job (tour /
+  unassigned list), duplicated unassigned entry, wrong number of activities of a job (duplicated / partly dropped), job split
+  over tours, broken any (incl. S17) / sequence / strict relation, missing break.
+* concrete `decide`d examples: a valid supported pair accepted by the model, breaches of it per class, and the open
+  deviation D11 (physically correct loads rejected).
 -/
 set_option linter.unusedSimpArgs false
 set_option linter.unusedVariables false
@@ -87,5 +98,2384 @@ theorem check_ne_nil_of_group (P : Problem) (S : Solution) (g : Group) (h : grou
     check P S ≠ [] := by
   intro hc
   exact h (((check_eq_nil P S).1 hc).2 g)
+
+end C12
+
+namespace C12
+open Spec
+
+/-! ## limits (`check_limits`): completeness and the three limit breaches -/
+
+theorem countP_le_length {α} (p : α → Bool) (l : List α) : countP p l ≤ l.length := by
+  induction l with
+  | nil => simp [countP]
+  | cons x rest ih => simp only [countP, List.length_cons]; split <;> omega
+
+/-- an activity list splits into departures, arrivals and the rest -/
+theorem length_eq_counts (l : List Act) :
+    l.length = countP (fun a => !isTerminalTy a.ty) l + countP (fun a => a.ty == .departure) l
+               + countP (fun a => a.ty == .arrival) l := by
+  induction l with
+  | nil => simp [countP]
+  | cons a rest ih =>
+    simp only [countP, List.length_cons]
+    have h : (if (!isTerminalTy a.ty) = true then 1 else 0) + (if (a.ty == ATy.departure) = true then 1 else 0)
+        + (if (a.ty == ATy.arrival) = true then 1 else 0) = 1 := by
+      cases a.ty <;> decide
+    omega
+
+theorem getElem?_mem_list {α} (l : List α) (i : Nat) (x : α) (h : l[i]? = some x) : x ∈ l := by
+  exact List.mem_of_getElem? h
+
+/-- what `limitsTourOk` says, unpacked -/
+theorem limitsTourOk_unpack (P : Problem) (t : Tour) (h : limitsTourOk P t = true) :
+    ∃ v sh f l, findVehicle P t.vehicleId = some v ∧ shiftOf P t = some sh ∧ firstStop t = some f ∧ lastStop t = some l ∧
+      (∀ m, v.maxDistance = some m → t.stat.distance ≤ m) ∧ (∀ m, v.maxDuration = some m → t.stat.duration ≤ m) ∧
+      (∀ m, v.tourSize = some m → countP (fun a => !isTerminalTy a.ty) (tourActs t) ≤ m) ∧
+      sh.startEarliest ≤ f.departure ∧ (∀ e, sh.end_ = some e → l.arrival ≤ e.latest) := by
+  unfold limitsTourOk at h
+  cases hv : findVehicle P t.vehicleId with
+  | none => simp [hv] at h
+  | some v =>
+    cases hs : shiftOf P t with
+    | none => simp [hv, hs] at h
+    | some sh =>
+      cases hf : firstStop t with
+      | none => simp [hv, hs, hf] at h
+      | some f =>
+        cases hl : lastStop t with
+        | none => simp [hv, hs, hf, hl] at h
+        | some l =>
+          simp only [hv, hs, hf, hl, Bool.and_eq_true, decide_eq_true_eq] at h
+          obtain ⟨⟨⟨⟨h1, h2⟩, h3⟩, h4⟩, h5⟩ := h
+          refine ⟨v, sh, f, l, rfl, rfl, rfl, rfl, ?_, ?_, ?_, h4, ?_⟩
+          · intro m hm; simpa [hm] using h1
+          · intro m hm; simpa [hm] using h2
+          · intro m hm; simpa [hm] using h3
+          · intro e he; simpa [he] using h5
+
+/-- the shift a tour names by index belongs to its vehicle -/
+theorem shiftOf_mem (P : Problem) (t : Tour) (v : VType) (sh : Shift)
+    (hv : findVehicle P t.vehicleId = some v) (hs : shiftOf P t = some sh) : sh ∈ v.shifts := by
+  unfold shiftOf at hs
+  simp only [hv, Option.bind_some] at hs
+  exact List.mem_of_getElem? hs
+
+theorem shiftAgrees_unpack (P : Problem) (t : Tour) (sh : Shift) (hs : shiftOf P t = some sh)
+    (h : shiftAgrees P t = true) : vehicleShift P t = .ok sh := by
+  unfold shiftAgrees at h
+  rw [hs] at h
+  cases hv : vehicleShift P t with
+  | error c => simp [hv] at h
+  | ok b => simp [hv] at h; rw [h]
+
+/-- **Completeness of the limits group**: on supported tours the documented limit rules imply that all three
+sub-checks of `check_limits` accept. The tour-size rule of the specification counts non-terminal activities; the
+code subtracts 2 (closed shift) or 1 (open shift) from the number of all activities. -/
+theorem limits_complete (P : Problem) (S : Solution)
+    (hshape : ∀ t ∈ S.tours, tourShapeOk P t = true ∧ shiftAgrees P t = true)
+    (hv : limitsOk P S = true) : ∀ r ∈ checkLimits P S, r = none := by
+  have hall : ∀ t ∈ S.tours, limitsTourOk P t = true := by
+    simpa [limitsOk, List.all_eq_true] using hv
+  intro r hr
+  simp only [checkLimits, List.mem_cons, List.mem_nil_iff, or_false] at hr
+  rcases hr with rfl | rfl | rfl
+  · -- check_shift_limits
+    rw [firstErrOf_eq_none]
+    intro t ht
+    obtain ⟨v, sh, f, l, hfv, hsh, hf, hl, hd, hdu, hts, _, _⟩ := limitsTourOk_unpack P t (hall t ht)
+    obtain ⟨hshape1, hagree⟩ := hshape t ht
+    have hvs := shiftAgrees_unpack P t sh hsh hagree
+    unfold checkShiftLimitsTour
+    simp only [hfv]
+    have h1 : overLimit v.maxDistance t.stat.distance = false := by
+      unfold overLimit
+      cases hm : v.maxDistance with
+      | none => rfl
+      | some m => have := hd m hm; simp; omega
+    have h2 : overLimit v.maxDuration t.stat.duration = false := by
+      unfold overLimit
+      cases hm : v.maxDuration with
+      | none => rfl
+      | some m => have := hdu m hm; simp; omega
+    rw [h1, h2]
+    simp only [Bool.false_eq_true, if_false]
+    · cases hm : v.tourSize with
+    | none => rfl
+    | some lim =>
+      simp only [hvs]
+      have hcount := hts lim hm
+      have hlen := length_eq_counts (tourActs t)
+      -- shape: one departure, arrivals according to the shift end
+      unfold tourShapeOk at hshape1
+      cases hstops : t.stops with
+      | nil => simp [hstops] at hshape1
+      | cons s0 rest =>
+        simp only [hstops, hsh, Bool.and_eq_true] at hshape1
+        obtain ⟨⟨⟨_, hdep⟩, _⟩, harr⟩ := hshape1
+        have hdep' : countP (fun a => a.ty == ATy.departure) (tourActs t) = 1 := by
+          simpa using hdep
+        cases he : sh.end_ with
+        | none =>
+          simp only [he] at harr
+          have harr' : countP (fun a => a.ty == ATy.arrival) (tourActs t) = 0 := by
+            simpa using harr
+          simp only [Option.isSome_none, Bool.false_eq_true, if_false]
+          rw [if_neg]; omega
+        | some e =>
+          simp only [he, Bool.and_eq_true] at harr
+          have harr' : countP (fun a => a.ty == ATy.arrival) (tourActs t) = 1 := by
+            simpa using harr.1
+          simp only [Option.isSome_some, if_true]
+          rw [if_neg]; omega
+  · -- check_shift_time
+    rw [firstErrOf_eq_none]
+    intro t ht
+    obtain ⟨v, sh, f, l, hfv, hsh, hf, hl, _, _, _, hstart, hend⟩ := limitsTourOk_unpack P t (hall t ht)
+    unfold checkShiftTimeTour
+    simp only [hfv, hf, hl]
+    have hmem := shiftOf_mem P t v sh hfv hsh
+    rw [if_pos]
+    rw [List.any_eq_true]
+    refine ⟨sh, hmem, ?_⟩
+    simp only [Bool.and_eq_true, decide_eq_true_eq, ge_iff_le]
+    refine ⟨hstart, ?_⟩
+    cases he : sh.end_ with
+    | none => rfl
+    | some e => simpa using hend e he
+  · -- check_recharge_limits (only the shift lookup can fail)
+    rw [firstErrOf_eq_none]
+    intro t ht
+    obtain ⟨v, sh, f, l, hfv, hsh, _⟩ := limitsTourOk_unpack P t (hall t ht)
+    have hvs := shiftAgrees_unpack P t sh hsh (hshape t ht).2
+    unfold checkRechargeTour
+    split
+    · simp [hvs]
+    · rfl
+
+end C12
+
+namespace C12
+open Spec
+
+/-! ## the specification is the conjunction of its parts -/
+
+theorem valid_iff (P : Problem) (S : Solution) :
+    validSolution P S = true ↔
+      vehiclesOk P S = true ∧ partitionOk P S = true ∧ groupsOk P S = true ∧ loadsOk P S = true ∧ routingOk P S = true ∧
+      limitsOk P S = true ∧ relationsOk P S = true ∧ breaksOk P S = true ∧ matchOk P S = true := by
+  simp [validSolution, parts, and_assoc]
+
+theorem groupErrors_ne_nil (P : Problem) (S : Solution) (g : Group) (r : Option Code)
+    (hr : r ∈ runGroup P S g) (h : r ≠ none) : groupErrors P S g ≠ [] := by
+  intro hn
+  exact h ((groupErrors_eq_nil P S g).1 hn r hr)
+
+/-! ## limit breaches (tightened `maxDistance` / `maxDuration` / `tourSize`) -/
+
+/-- breach half 1: a tour longer than the vehicle's distance limit violates the specification -/
+theorem breach_limit_distance_invalid (P : Problem) (S : Solution) (t : Tour) (v : VType) (m : Int)
+    (ht : t ∈ S.tours) (hv : findVehicle P t.vehicleId = some v) (hm : v.maxDistance = some m)
+    (h : t.stat.distance > m) : validSolution P S = false := by
+  cases hval : validSolution P S with
+  | false => rfl
+  | true =>
+    exfalso
+    have hl := ((valid_iff P S).1 hval).2.2.2.2.2.1
+    have hall : ∀ t ∈ S.tours, limitsTourOk P t = true := by simpa [limitsOk, List.all_eq_true] using hl
+    obtain ⟨v', sh, f, l, hfv, _, _, _, hd, _⟩ := limitsTourOk_unpack P t (hall t ht)
+    rw [hv] at hfv; cases hfv
+    have := hd m hm; omega
+
+/-- breach half 2: the checker rejects it -/
+theorem checker_rejects_limit_distance (P : Problem) (S : Solution) (t : Tour) (v : VType) (m : Int)
+    (ht : t ∈ S.tours) (hv : findVehicle P t.vehicleId = some v) (hm : v.maxDistance = some m)
+    (h : t.stat.distance > m) : check P S ≠ [] := by
+  apply check_ne_nil_of_group P S .limits
+  apply groupErrors_ne_nil P S .limits (firstErrOf (checkShiftLimitsTour P) S.tours) (by simp [runGroup, checkLimits])
+  apply firstErrOf_ne_none _ _ t ht
+  simp [checkShiftLimitsTour, hv, overLimit, hm, h]
+
+theorem breach_limit_duration_invalid (P : Problem) (S : Solution) (t : Tour) (v : VType) (m : Int)
+    (ht : t ∈ S.tours) (hv : findVehicle P t.vehicleId = some v) (hm : v.maxDuration = some m)
+    (h : t.stat.duration > m) : validSolution P S = false := by
+  cases hval : validSolution P S with
+  | false => rfl
+  | true =>
+    exfalso
+    have hl := ((valid_iff P S).1 hval).2.2.2.2.2.1
+    have hall : ∀ t ∈ S.tours, limitsTourOk P t = true := by simpa [limitsOk, List.all_eq_true] using hl
+    obtain ⟨v', sh, f, l, hfv, _, _, _, _, hd, _⟩ := limitsTourOk_unpack P t (hall t ht)
+    rw [hv] at hfv; cases hfv
+    have := hd m hm; omega
+
+theorem checker_rejects_limit_duration (P : Problem) (S : Solution) (t : Tour) (v : VType) (m : Int)
+    (ht : t ∈ S.tours) (hv : findVehicle P t.vehicleId = some v) (hm : v.maxDuration = some m)
+    (h : t.stat.duration > m) : check P S ≠ [] := by
+  apply check_ne_nil_of_group P S .limits
+  apply groupErrors_ne_nil P S .limits (firstErrOf (checkShiftLimitsTour P) S.tours) (by simp [runGroup, checkLimits])
+  apply firstErrOf_ne_none _ _ t ht
+  unfold checkShiftLimitsTour
+  simp only [hv]
+  split
+  · simp
+  · have : overLimit v.maxDuration t.stat.duration = true := by simp [overLimit, hm, h]
+    simp [this]
+
+theorem breach_limit_tour_size_invalid (P : Problem) (S : Solution) (t : Tour) (v : VType) (m : Nat)
+    (ht : t ∈ S.tours) (hv : findVehicle P t.vehicleId = some v) (hm : v.tourSize = some m)
+    (h : countP (fun a => !isTerminalTy a.ty) (tourActs t) > m) : validSolution P S = false := by
+  cases hval : validSolution P S with
+  | false => rfl
+  | true =>
+    exfalso
+    have hl := ((valid_iff P S).1 hval).2.2.2.2.2.1
+    have hall : ∀ t ∈ S.tours, limitsTourOk P t = true := by simpa [limitsOk, List.all_eq_true] using hl
+    obtain ⟨v', sh, f, l, hfv, _, _, _, _, _, hd, _⟩ := limitsTourOk_unpack P t (hall t ht)
+    rw [hv] at hfv; cases hfv
+    have := hd m hm; omega
+
+/-- the code's `activities - (2 | 1)` is the number of non-terminal activities on a well-shaped tour -/
+theorem tour_size_as_coded (P : Problem) (t : Tour) (sh : Shift) (hsh : shiftOf P t = some sh)
+    (hshape : tourShapeOk P t = true) :
+    (tourActs t).length - (if sh.end_.isSome then 2 else 1) = countP (fun a => !isTerminalTy a.ty) (tourActs t) := by
+  have hlen := length_eq_counts (tourActs t)
+  unfold tourShapeOk at hshape
+  cases hstops : t.stops with
+  | nil => simp [hstops] at hshape
+  | cons s0 rest =>
+    simp only [hstops, hsh, Bool.and_eq_true] at hshape
+    obtain ⟨⟨⟨_, hdep⟩, _⟩, harr⟩ := hshape
+    have hdep' : countP (fun a => a.ty == ATy.departure) (tourActs t) = 1 := by simpa using hdep
+    cases he : sh.end_ with
+    | none =>
+      simp only [he] at harr
+      have harr' : countP (fun a => a.ty == ATy.arrival) (tourActs t) = 0 := by simpa using harr
+      simp; omega
+    | some e =>
+      simp only [he, Bool.and_eq_true] at harr
+      have harr' : countP (fun a => a.ty == ATy.arrival) (tourActs t) = 1 := by simpa using harr.1
+      simp; omega
+
+theorem checker_rejects_limit_tour_size (P : Problem) (S : Solution) (t : Tour) (v : VType) (m : Nat)
+    (ht : t ∈ S.tours) (hv : findVehicle P t.vehicleId = some v) (hm : v.tourSize = some m)
+    (hshape : tourShapeOk P t = true) (hagree : shiftAgrees P t = true)
+    (h : countP (fun a => !isTerminalTy a.ty) (tourActs t) > m) : check P S ≠ [] := by
+  apply check_ne_nil_of_group P S .limits
+  apply groupErrors_ne_nil P S .limits (firstErrOf (checkShiftLimitsTour P) S.tours) (by simp [runGroup, checkLimits])
+  apply firstErrOf_ne_none _ _ t ht
+  unfold checkShiftLimitsTour
+  simp only [hv]
+  split
+  · simp
+  · split
+    · simp
+    · simp only [hm]
+      cases hs : shiftOf P t with
+      | none => unfold shiftAgrees at hagree; simp [hs] at hagree
+      | some sh =>
+        have hvs := shiftAgrees_unpack P t sh hs hagree
+        simp only [hvs]
+        have := tour_size_as_coded P t sh hs hshape
+        rw [this, if_pos h]
+        simp
+
+/-! ## vehicles (`check_vehicles`) -/
+
+theorem checkVehiclesGo_none (P : Problem) (seen : List (String × Nat)) (tours : List Tour)
+    (hk : ∀ t ∈ tours, (findVehicle P t.vehicleId).isSome = true)
+    (hd : hasDup (tours.map tourKey) = false) (hs : ∀ t ∈ tours, tourKey t ∉ seen) :
+    checkVehiclesGo P seen tours = none := by
+  induction tours generalizing seen with
+  | nil => rfl
+  | cons t rest ih =>
+    simp only [checkVehiclesGo]
+    have hfound : P.vehicles.any (fun v => v.ids.contains t.vehicleId) = true := by
+      have := hk t (by simp)
+      unfold findVehicle at this
+      rw [List.find?_isSome] at this
+      obtain ⟨v, hv, hc⟩ := this
+      exact List.any_eq_true.2 ⟨v, hv, hc⟩
+    simp only [hfound, Bool.not_true, Bool.false_eq_true, if_false]
+    have hnot : seen.contains (t.vehicleId, t.shiftIndex) = false := by
+      have := hs t (by simp)
+      simpa [tourKey] using this
+    simp only [hnot, Bool.false_eq_true, if_false]
+    simp only [List.map_cons, hasDup, Bool.or_eq_false_iff] at hd
+    apply ih
+    · intro t' ht'; exact hk t' (by simp [ht'])
+    · exact hd.2
+    · intro t' ht' hmem
+      simp only [List.mem_cons] at hmem
+      rcases hmem with heq | hmem
+      · have : (rest.map tourKey).contains (tourKey t) = true := by
+          rw [List.contains_iff_mem]
+          rw [show (t.vehicleId, t.shiftIndex) = tourKey t from rfl] at heq
+          rw [← heq]; exact List.mem_map_of_mem ht'
+        rw [this] at hd; simp at hd
+      · exact hs t' (by simp [ht']) hmem
+
+/-- completeness of `check_vehicles` -/
+theorem vehicles_complete (P : Problem) (S : Solution) (h : vehiclesOk P S = true) :
+    checkVehiclesGo P [] S.tours = none := by
+  simp only [vehiclesOk, Bool.and_eq_true, List.all_eq_true, Bool.not_eq_true'] at h
+  exact checkVehiclesGo_none P [] S.tours h.1 h.2 (by simp)
+
+/-- breach half 1: a tour run by a vehicle the fleet does not have violates the specification -/
+theorem breach_unknown_vehicle_invalid (P : Problem) (S : Solution) (t : Tour) (ht : t ∈ S.tours)
+    (h : findVehicle P t.vehicleId = none) : validSolution P S = false := by
+  cases hval : validSolution P S with
+  | false => rfl
+  | true =>
+    exfalso
+    have hl := ((valid_iff P S).1 hval).1
+    simp only [vehiclesOk, Bool.and_eq_true, List.all_eq_true] at hl
+    have := hl.1 t ht
+    simp [h] at this
+
+theorem checkVehiclesGo_unknown (P : Problem) (seen : List (String × Nat)) (tours : List Tour) (t : Tour)
+    (ht : t ∈ tours) (h : findVehicle P t.vehicleId = none) : checkVehiclesGo P seen tours ≠ none := by
+  induction tours generalizing seen with
+  | nil => simp at ht
+  | cons x rest ih =>
+    simp only [checkVehiclesGo]
+    split
+    · simp
+    · split
+      · simp
+      · simp only [List.mem_cons] at ht
+        rcases ht with rfl | ht
+        · rename_i hknown _
+          exfalso
+          simp only [Bool.not_eq_true', Bool.not_eq_false] at hknown
+          unfold findVehicle at h
+          rw [List.find?_eq_none] at h
+          obtain ⟨v, hv, hc⟩ := List.any_eq_true.1 hknown
+          exact h v hv hc
+        · exact ih _ ht
+
+/-- breach half 2 -/
+theorem checker_rejects_unknown_vehicle (P : Problem) (S : Solution) (t : Tour) (ht : t ∈ S.tours)
+    (h : findVehicle P t.vehicleId = none) : check P S ≠ [] := by
+  apply check_ne_nil_of_group P S .assignment
+  apply groupErrors_ne_nil P S .assignment (checkVehiclesGo P [] S.tours) (by simp [runGroup, checkAssignment])
+  exact checkVehiclesGo_unknown P [] S.tours t ht h
+
+theorem checkVehiclesGo_seen (P : Problem) (seen : List (String × Nat)) (tours : List Tour) (t : Tour)
+    (ht : t ∈ tours) (h : tourKey t ∈ seen) : checkVehiclesGo P seen tours ≠ none := by
+  induction tours generalizing seen with
+  | nil => simp at ht
+  | cons x rest ih =>
+    simp only [checkVehiclesGo]
+    split
+    · simp
+    · split
+      · simp
+      · simp only [List.mem_cons] at ht
+        rcases ht with rfl | ht
+        · rename_i _ hns
+          exfalso
+          apply hns
+          rw [List.contains_iff_mem]
+          exact h
+        · exact ih _ ht (by simp [h])
+
+theorem checkVehiclesGo_dup (P : Problem) (seen : List (String × Nat)) (tours : List Tour)
+    (h : hasDup (tours.map tourKey) = true) : checkVehiclesGo P seen tours ≠ none := by
+  induction tours generalizing seen with
+  | nil => simp [hasDup] at h
+  | cons x rest ih =>
+    simp only [checkVehiclesGo]
+    split
+    · simp
+    · split
+      · simp
+      · simp only [List.map_cons, hasDup, Bool.or_eq_true] at h
+        rcases h with h | h
+        · rw [List.contains_iff_mem, List.mem_map] at h
+          obtain ⟨t', ht', hk⟩ := h
+          apply checkVehiclesGo_seen P _ rest t' ht'
+          rw [hk]; simp [tourKey]
+        · exact ih _ h
+
+/-- breach (vehicle used twice for one shift), both halves -/
+theorem breach_vehicle_twice_invalid (P : Problem) (S : Solution) (h : hasDup (S.tours.map tourKey) = true) :
+    validSolution P S = false := by
+  cases hval : validSolution P S with
+  | false => rfl
+  | true =>
+    exfalso
+    have hl := ((valid_iff P S).1 hval).1
+    simp only [vehiclesOk, Bool.and_eq_true, Bool.not_eq_true'] at hl
+    rw [hl.2] at h; simp at h
+
+theorem checker_rejects_vehicle_twice (P : Problem) (S : Solution) (h : hasDup (S.tours.map tourKey) = true) :
+    check P S ≠ [] := by
+  apply check_ne_nil_of_group P S .assignment
+  apply groupErrors_ne_nil P S .assignment (checkVehiclesGo P [] S.tours) (by simp [runGroup, checkAssignment])
+  exact checkVehiclesGo_dup P [] S.tours h
+
+end C12
+
+namespace C12
+open Spec
+
+/-! ## routing and statistics (`check_routing`) -/
+
+theorem absI_le_iff (x : Int) : absI x ≤ 1 ↔ -1 ≤ x ∧ x ≤ 1 := by
+  unfold absI; split <;> omega
+
+theorem absI_gt_iff (x : Int) : absI x > 1 ↔ x < -1 ∨ x > 1 := by
+  unfold absI; split <;> omega
+
+/-- the leg fold succeeds on a stop list whose consecutive pairs satisfy the positional rule, and returns the
+departure and the reported distance of the last stop -/
+theorem routeGo_ok (P : Problem) (v : VType) (skip : Bool) (from_ : Stop) (rest : List Stop) (dist : Int)
+    (h : legsOk P v skip (from_ :: rest) = true) (hd : skip = false → dist = from_.distance) :
+    ∃ d, routeGo P v skip from_.departure dist from_ rest
+           = .ok (((from_ :: rest).getLast (by simp)).departure, d)
+         ∧ (skip = false → d = ((from_ :: rest).getLast (by simp)).distance) := by
+  induction rest generalizing from_ dist with
+  | nil => exact ⟨dist, by simp [routeGo], by simpa using hd⟩
+  | cons to rest ih =>
+    simp only [legsOk, Bool.and_eq_true] at h
+    obtain ⟨hleg, hrest⟩ := h
+    cases hm : matrixData P v from_.loc to.loc with
+    | none => simp [hm] at hleg
+    | some dd =>
+      obtain ⟨d, dur⟩ := dd
+      simp only [hm, Bool.and_eq_true, decide_eq_true_eq, Bool.or_eq_true] at hleg
+      obtain ⟨harr, hdist⟩ := hleg
+      obtain ⟨d', hgo, hd'⟩ := ih to to.distance hrest (fun _ => rfl)
+      refine ⟨d', ?_, ?_⟩
+      · simp only [routeGo, hm]
+        have h1 : ¬ (absI (from_.departure + dur - to.arrival) > 1) := by omega
+        rw [if_neg (by simpa using h1)]
+        have h2 : (!skip && decide (absI (dist + d - to.distance) > 1)) = false := by
+          cases hs : skip with
+          | true => simp
+          | false =>
+            have := hd hs
+            rcases hdist with hsk | hle
+            · simp [hs] at hsk
+            · simp; rw [this]; omega
+        rw [h2]
+        simpa using hgo
+      · simpa using hd'
+
+/-- what `routingTourOk` says, unpacked -/
+theorem routingTourOk_unpack (P : Problem) (skip : Bool) (t : Tour) (h : routingTourOk P skip t = true) :
+    ∃ v f l, findVehicle P t.vehicleId = some v ∧ firstStop t = some f ∧ lastStop t = some l ∧
+      (P.profiles[v.profile]?).isSome = true ∧ (∃ a, f.acts.head? = some a) ∧ (skip = false → f.distance = 0) ∧
+      legsOk P v skip t.stops = true ∧ (skip = false → absI (l.distance - t.stat.distance) ≤ 1) ∧
+      absI (l.departure - tourStart t - t.stat.duration) ≤ 1 := by
+  unfold routingTourOk at h
+  cases hv : findVehicle P t.vehicleId with
+  | none => simp [hv] at h
+  | some v =>
+    cases hf : firstStop t with
+    | none => simp [hv, hf] at h
+    | some f =>
+      cases hl : lastStop t with
+      | none => simp [hv, hf, hl] at h
+      | some l =>
+        simp only [hv, hf, hl, Bool.and_eq_true, Bool.or_eq_true, decide_eq_true_eq, beq_iff_eq] at h
+        obtain ⟨⟨⟨⟨⟨hp, ha⟩, h0⟩, hlegs⟩, hdist⟩, hdur⟩ := h
+        refine ⟨v, f, l, rfl, rfl, rfl, hp, ?_, ?_, hlegs, ?_, hdur⟩
+        · cases hh : f.acts.head? with
+          | none => simp [hh] at ha
+          | some a => exact ⟨a, rfl⟩
+        · intro hs; rcases h0 with h0 | h0
+          · simp [hs] at h0
+          · exact h0
+        · intro hs; rcases hdist with h0 | h0
+          · simp [hs] at h0
+          · exact h0
+
+/-- **Completeness of the routing group**: stops reproducible from the matrices (±1), tour statistic = last
+distance / time from start to last departure (±1), totals = sums ⟹ `check_routing` accepts -/
+theorem routing_complete (P : Problem) (S : Solution) (h : routingOk P S = true) :
+    ∀ r ∈ checkRouting P S, r = none := by
+  simp only [routingOk, Bool.and_eq_true, List.all_eq_true, beq_iff_eq] at h
+  obtain ⟨⟨htours, hdist⟩, hdur⟩ := h
+  intro r hr
+  simp only [checkRouting, List.mem_cons, List.mem_nil_iff, or_false] at hr
+  subst hr
+  have hfirst : firstErrOf (checkRoutingTour P (skipDistance S)) S.tours = none := by
+    rw [firstErrOf_eq_none]
+    intro t ht
+    obtain ⟨v, f, l, hv, hf, hl, hp, ⟨a0, ha0⟩, h0, hlegs, hd, hdu⟩ :=
+      routingTourOk_unpack P (skipDistance S) t (htours t ht)
+    unfold checkRoutingTour
+    simp only [hv]
+    have hp' : (P.profiles[v.profile]?).isNone = false := by
+      cases hh : P.profiles[v.profile]? with
+      | none => simp [hh] at hp
+      | some _ => rfl
+    rw [hp']
+    simp only [Bool.false_eq_true, if_false]
+    cases hst : t.stops with
+    | nil => simp [firstStop, hst] at hf
+    | cons s0 rest =>
+      have hs0 : f = s0 := by simp [firstStop, hst] at hf; exact hf.symm
+      subst hs0
+      simp only [ha0]
+      rw [hst] at hlegs
+      obtain ⟨d, hgo, hd'⟩ := routeGo_ok P v (skipDistance S) f rest 0 hlegs (fun hs => (h0 hs).symm)
+      rw [hgo]
+      have hlast : (f :: rest).getLast (by simp) = l := by
+        have : lastStop t = some ((f :: rest).getLast (by simp)) := by
+          simp [lastStop, hst, List.getLast?_eq_some_getLast]
+        rw [hl] at this; exact (Option.some.inj this).symm
+      simp only [hlast]
+      have h1 : (!skipDistance S && decide (absI (d - t.stat.distance) > 1)) = false := by
+        cases hs : skipDistance S with
+        | true => simp
+        | false =>
+          have e := hd' hs
+          rw [hlast] at e
+          have := hd hs
+          simp; rw [e]; omega
+      rw [h1]
+      simp only [Bool.false_eq_true, if_false]
+      rw [if_neg]
+      simp; omega
+  rw [hfirst]
+  simp [hdist, hdur]
+
+/-- a leg that breaks the arrival rule makes the leg fold fail, wherever it is in the tour -/
+theorem routeGo_fails_at (P : Problem) (v : VType) (skip : Bool) (pre post : List Stop) (a b : Stop)
+    (d dur : Int) (hm : matrixData P v a.loc b.loc = some (d, dur))
+    (hbad : absI (a.departure + dur - b.arrival) > 1 ∨ (skip = false ∧ absI (a.distance + d - b.distance) > 1 ∧ pre ≠ []))
+    (x0 : Stop) (rest : List Stop) (dep dist : Int)
+    (hl : x0 :: rest = pre ++ a :: b :: post) (hdep : pre = [] → dep = a.departure) :
+    ∀ r, routeGo P v skip dep dist x0 rest ≠ .ok r := by
+  induction pre generalizing x0 rest dep dist with
+  | nil =>
+    simp only [List.nil_append, List.cons.injEq] at hl
+    obtain ⟨rfl, rfl⟩ := hl
+    intro r
+    simp only [routeGo, hm]
+    rcases hbad with hbad | ⟨_, _, hne⟩
+    · have := hdep rfl
+      subst this
+      rw [if_pos (by simpa using hbad)]
+      simp
+    · exact absurd rfl hne
+  | cons p pre' ih =>
+    simp only [List.cons_append, List.cons.injEq] at hl
+    obtain ⟨rfl, rfl⟩ := hl
+    intro r
+    cases hpre : pre' with
+    | nil =>
+      -- the bad leg is the second leg: from = a after one step
+      simp only [hpre, List.nil_append, routeGo]
+      split
+      · simp
+      · split
+        · simp
+        · split
+          · simp
+          · -- now at a :: b :: post with dep = a.departure, dist = a.distance
+            simp only [routeGo, hm]
+            rcases hbad with hbad | ⟨hs, hbad, _⟩
+            · rw [if_pos (by simpa using hbad)]; simp
+            · split
+              · simp
+              · rw [if_pos (by simp [hs]; simpa using hbad)]; simp
+    | cons q pre'' =>
+      subst hpre
+      simp only [List.cons_append, routeGo]
+      split
+      · simp
+      · split
+        · simp
+        · split
+          · simp
+          · apply ih
+            · rcases hbad with hbad | ⟨hs, hbad, _⟩
+              · exact Or.inl hbad
+              · exact Or.inr ⟨hs, hbad, by simp⟩
+            · rfl
+            · intro hnil; simp at hnil
+
+/-- breach half 2 (arrival shift / departure shift / distance shift): a leg whose reported arrival is more than
+one second off the matrix value, or (from the second leg on) whose distance is more than one unit off, is rejected -/
+theorem checker_rejects_leg_mismatch (P : Problem) (S : Solution) (t : Tour) (v : VType) (pre post : List Stop)
+    (a b : Stop) (d dur : Int) (ht : t ∈ S.tours) (hv : findVehicle P t.vehicleId = some v)
+    (hst : t.stops = pre ++ a :: b :: post) (hm : matrixData P v a.loc b.loc = some (d, dur))
+    (hbad : absI (a.departure + dur - b.arrival) > 1 ∨
+            (skipDistance S = false ∧ absI (a.distance + d - b.distance) > 1 ∧ pre ≠ [])) :
+    check P S ≠ [] := by
+  apply check_ne_nil_of_group P S .routing
+  have hne : firstErrOf (checkRoutingTour P (skipDistance S)) S.tours ≠ none := by
+    apply firstErrOf_ne_none _ _ t ht
+    unfold checkRoutingTour
+    simp only [hv]
+    split
+    · simp
+    · cases hst' : t.stops with
+      | nil => simp
+      | cons s0 rest =>
+        simp only
+        cases ha : s0.acts.head? with
+        | none => simp
+        | some a0 =>
+          simp only
+          have := routeGo_fails_at P v (skipDistance S) pre post a b d dur hm hbad s0 rest s0.departure 0
+            (by rw [← hst', hst]) (by
+              intro hp; subst hp
+              simp only [List.nil_append] at hst
+              rw [hst] at hst'
+              simp only [List.cons.injEq] at hst'
+              rw [hst'.1])
+          cases hgo : routeGo P v (skipDistance S) s0.departure 0 s0 rest with
+          | error c => simp
+          | ok r => exact absurd hgo (this r)
+  apply groupErrors_ne_nil P S .routing _ (by simp [runGroup, checkRouting]; rfl)
+  cases hf : firstErrOf (checkRoutingTour P (skipDistance S)) S.tours with
+  | none => exact absurd hf hne
+  | some c => simp
+
+/-- breach half 1 for the same shapes -/
+theorem legsOk_false_at (P : Problem) (v : VType) (skip : Bool) (pre post : List Stop) (a b : Stop)
+    (d dur : Int) (hm : matrixData P v a.loc b.loc = some (d, dur))
+    (hbad : absI (a.departure + dur - b.arrival) > 1 ∨ (skip = false ∧ absI (a.distance + d - b.distance) > 1)) :
+    legsOk P v skip (pre ++ a :: b :: post) = false := by
+  induction pre with
+  | nil =>
+    simp only [List.nil_append, legsOk, hm]
+    rcases hbad with hbad | ⟨hs, hbad⟩
+    · have : decide (absI (a.departure + dur - b.arrival) ≤ 1) = false := by simp; omega
+      simp [this]
+    · have : decide (absI (a.distance + d - b.distance) ≤ 1) = false := by simp; omega
+      simp [this, hs]
+  | cons p pre' ih =>
+    cases hpre : pre' with
+    | nil => subst hpre; simp only [List.cons_append, List.nil_append, legsOk] at ih ⊢; simp [ih]
+    | cons q pre'' => subst hpre; simp only [List.cons_append, legsOk] at ih ⊢; simp [ih]
+
+theorem breach_leg_mismatch_invalid (P : Problem) (S : Solution) (t : Tour) (v : VType) (pre post : List Stop)
+    (a b : Stop) (d dur : Int) (ht : t ∈ S.tours) (hv : findVehicle P t.vehicleId = some v)
+    (hst : t.stops = pre ++ a :: b :: post) (hm : matrixData P v a.loc b.loc = some (d, dur))
+    (hbad : absI (a.departure + dur - b.arrival) > 1 ∨
+            (skipDistance S = false ∧ absI (a.distance + d - b.distance) > 1)) :
+    validSolution P S = false := by
+  cases hval : validSolution P S with
+  | false => rfl
+  | true =>
+    exfalso
+    have hl := ((valid_iff P S).1 hval).2.2.2.2.1
+    simp only [routingOk, Bool.and_eq_true, List.all_eq_true] at hl
+    obtain ⟨v', f, l, hv', _, _, _, _, _, hlegs, _⟩ := routingTourOk_unpack P (skipDistance S) t (hl.1.1 t ht)
+    rw [hv] at hv'; cases hv'
+    rw [hst, legsOk_false_at P v (skipDistance S) pre post a b d dur hm hbad] at hlegs
+    simp at hlegs
+
+/-- breach (overall statistic), both halves -/
+theorem breach_statistic_total_invalid (P : Problem) (S : Solution)
+    (h : sumInt (S.tours.map (fun t => t.stat.distance)) ≠ S.stat.distance ∨
+         sumInt (S.tours.map (fun t => t.stat.duration)) ≠ S.stat.duration) : validSolution P S = false := by
+  cases hval : validSolution P S with
+  | false => rfl
+  | true =>
+    exfalso
+    have hl := ((valid_iff P S).1 hval).2.2.2.2.1
+    simp only [routingOk, Bool.and_eq_true, beq_iff_eq] at hl
+    rcases h with h | h
+    · exact h hl.1.2
+    · exact h hl.2
+
+theorem checker_rejects_statistic_total (P : Problem) (S : Solution)
+    (h : sumInt (S.tours.map (fun t => t.stat.distance)) ≠ S.stat.distance ∨
+         sumInt (S.tours.map (fun t => t.stat.duration)) ≠ S.stat.duration) : check P S ≠ [] := by
+  apply check_ne_nil_of_group P S .routing
+  apply groupErrors_ne_nil P S .routing _ (by simp [runGroup, checkRouting]; rfl)
+  cases hf : firstErrOf (checkRoutingTour P (skipDistance S)) S.tours with
+  | some c => simp
+  | none =>
+    simp only
+    rw [if_pos]
+    · simp
+    · rcases h with h | h
+      · simp [h]
+      · simp [h]
+
+end C12
+
+namespace C12
+open Spec
+
+/-! ## loads: algebra of the zero padded vectors -/
+
+def lget (l : Load) (d : Nat) : Int := l.getD d 0
+
+theorem lget_nil (d : Nat) : lget [] d = 0 := by simp [lget]
+
+theorem lget_cons_zero (x : Int) (l : Load) : lget (x :: l) 0 = x := by simp [lget]
+
+theorem lget_cons_succ (x : Int) (l : Load) (d : Nat) : lget (x :: l) (d + 1) = lget l d := by simp [lget]
+
+theorem lget_ladd (a b : Load) (d : Nat) : lget (ladd a b) d = lget a d + lget b d := by
+  induction a generalizing b d with
+  | nil => simp [ladd, lget_nil]
+  | cons x a ih =>
+    cases b with
+    | nil => simp [ladd, lget_nil]
+    | cons y b =>
+      cases d with
+      | zero => simp [ladd, lget_cons_zero]
+      | succ d => simp [ladd, lget_cons_succ, ih]
+
+theorem lget_lneg (a : Load) (d : Nat) : lget (lneg a) d = - lget a d := by
+  induction a generalizing d with
+  | nil => simp [lneg, lget_nil]
+  | cons x a ih =>
+    cases d with
+    | zero => simp [lneg, lget_cons_zero]
+    | succ d =>
+      have := ih d
+      simp only [lneg] at this
+      simp [lneg, lget_cons_succ, this]
+
+theorem lget_lsub (a b : Load) (d : Nat) : lget (lsub a b) d = lget a d - lget b d := by
+  induction a generalizing b d with
+  | nil =>
+    cases b with
+    | nil => simp [lsub, lget_nil]
+    | cons y b => simp [lsub, lget_nil, lget_lneg]
+  | cons x a ih =>
+    cases b with
+    | nil => simp [lsub, lget_nil]
+    | cons y b =>
+      cases d with
+      | zero => simp [lsub, lget_cons_zero]
+      | succ d => simp [lsub, lget_cons_succ, ih]
+
+theorem all_nonpos_iff (l : Load) : l.all (fun x => decide (x ≤ 0)) = true ↔ ∀ d, lget l d ≤ 0 := by
+  induction l with
+  | nil => simp [lget_nil]
+  | cons x l ih =>
+    simp only [List.all_cons, Bool.and_eq_true, decide_eq_true_eq, ih]
+    constructor
+    · rintro ⟨h0, h⟩ d
+      cases d with
+      | zero => simpa [lget_cons_zero] using h0
+      | succ d => simpa [lget_cons_succ] using h d
+    · intro h
+      exact ⟨by simpa [lget_cons_zero] using h 0, fun d => by simpa [lget_cons_succ] using h (d + 1)⟩
+
+theorem all_nonneg_iff (l : Load) : l.all (fun x => decide (0 ≤ x)) = true ↔ ∀ d, 0 ≤ lget l d := by
+  induction l with
+  | nil => simp [lget_nil]
+  | cons x l ih =>
+    simp only [List.all_cons, Bool.and_eq_true, decide_eq_true_eq, ih]
+    constructor
+    · rintro ⟨h0, h⟩ d
+      cases d with
+      | zero => simpa [lget_cons_zero] using h0
+      | succ d => simpa [lget_cons_succ] using h d
+    · intro h
+      exact ⟨by simpa [lget_cons_zero] using h 0, fun d => by simpa [lget_cons_succ] using h (d + 1)⟩
+
+/-- `can_fit` is the dimension-wise order on zero padded vectors -/
+theorem lfit_iff (c l : Load) : lfit c l = true ↔ ∀ d, lget l d ≤ lget c d := by
+  induction c generalizing l with
+  | nil =>
+    cases l with
+    | nil => simp [lfit, lget_nil]
+    | cons x xs =>
+      simp only [lfit]
+      rw [all_nonpos_iff]
+      simp [lget_nil]
+  | cons c cs ih =>
+    cases l with
+    | nil =>
+      simp only [lfit]
+      rw [all_nonneg_iff]
+      simp [lget_nil]
+    | cons x xs =>
+      simp only [lfit, Bool.and_eq_true, decide_eq_true_eq, ih]
+      constructor
+      · rintro ⟨h0, h⟩ d
+        cases d with
+        | zero => simpa [lget_cons_zero] using h0
+        | succ d => simpa [lget_cons_succ] using h d
+      · intro h
+        exact ⟨by simpa [lget_cons_zero] using h 0, fun d => by simpa [lget_cons_succ] using h (d + 1)⟩
+
+theorem all_zero_iff (l : Load) : l.all (fun x => x == 0) = true ↔ ∀ d, lget l d = 0 := by
+  induction l with
+  | nil => simp [lget_nil]
+  | cons x l ih =>
+    simp only [List.all_cons, Bool.and_eq_true, beq_iff_eq, ih]
+    constructor
+    · rintro ⟨h0, h⟩ d
+      cases d with
+      | zero => simpa [lget_cons_zero] using h0
+      | succ d => simpa [lget_cons_succ] using h d
+    · intro h
+      exact ⟨by simpa [lget_cons_zero] using h 0, fun d => by simpa [lget_cons_succ] using h (d + 1)⟩
+
+/-- zero padded equality is dimension-wise equality -/
+theorem leqPad_iff (a b : Load) : leqPad a b = true ↔ ∀ d, lget a d = lget b d := by
+  induction a generalizing b with
+  | nil =>
+    cases b with
+    | nil => simp [leqPad]
+    | cons y b =>
+      simp only [leqPad]
+      rw [all_zero_iff]
+      simp [lget_nil, eq_comm]
+  | cons x a ih =>
+    cases b with
+    | nil =>
+      simp only [leqPad]
+      rw [all_zero_iff]
+      simp [lget_nil]
+    | cons y b =>
+      simp only [leqPad, Bool.and_eq_true, beq_iff_eq, ih]
+      constructor
+      · rintro ⟨h0, h⟩ d
+        cases d with
+        | zero => simpa [lget_cons_zero] using h0
+        | succ d => simpa [lget_cons_succ] using h d
+      · intro h
+        exact ⟨by simpa [lget_cons_zero] using h 0, fun d => by simpa [lget_cons_succ] using h (d + 1)⟩
+
+/-- the `==` of `MultiDimLoad`: dimension-wise equality, except that two empty loads are unequal -/
+theorem leq_iff (a b : Load) : leq a b = true ↔ ¬ (a = [] ∧ b = []) ∧ ∀ d, lget a d = lget b d := by
+  unfold leq
+  rw [Bool.and_eq_true, leqPad_iff]
+  constructor
+  · rintro ⟨h1, h2⟩
+    refine ⟨?_, h2⟩
+    rintro ⟨rfl, rfl⟩
+    simp at h1
+  · rintro ⟨h1, h2⟩
+    refine ⟨?_, h2⟩
+    cases a with
+    | nil =>
+      cases b with
+      | nil => exact absurd ⟨rfl, rfl⟩ h1
+      | cons y b => simp
+    | cons x a => simp
+
+/-! ## load above capacity is rejected -/
+
+/-- the leg fold of an interval fails as soon as one of its stops reports a load the vehicle cannot fit -/
+theorem legsGo_fails_overload (P : Problem) (t : Tour) (cap ep : Load) (acc : Load) (from_ : Stop) (rest : List Stop)
+    (hne : rest ≠ []) (s : Stop) (hs : s ∈ from_ :: rest) (hover : lfit cap s.load = false) :
+    ∀ r, legsGo P t cap ep acc from_ rest ≠ .ok r := by
+  induction rest generalizing acc from_ with
+  | nil => exact absurd rfl hne
+  | cons to rest ih =>
+    intro r
+    simp only [legsGo]
+    by_cases hfit : (!lfit cap from_.load || !lfit cap to.load) = true
+    · rw [if_pos hfit]; simp
+    · rw [if_neg hfit]
+      simp only [Bool.or_eq_true, Bool.not_eq_true', not_or, Bool.not_eq_false] at hfit
+      -- s is neither from nor to, so it is further down
+      have hs' : s ∈ rest := by
+        simp only [List.mem_cons] at hs
+        rcases hs with rfl | rfl | hs
+        · rw [hfit.1] at hover; simp at hover
+        · rw [hfit.2] at hover; simp at hover
+        · exact hs
+      split
+      · simp
+      · split
+        · have hne' : rest ≠ [] := by intro h; rw [h] at hs'; simp at hs'
+          exact ih _ to hne' (by simp [hs']) r
+        · simp
+
+theorem intervalsGo_fails_overload (P : Problem) (t : Tour) (cap : Load) (acc : Load) (ivs : List (List Stop))
+    (hlen : ∀ iv ∈ ivs, 2 ≤ iv.length) (iv : List Stop) (hiv : iv ∈ ivs) (s : Stop) (hs : s ∈ iv)
+    (hover : lfit cap s.load = false) : ∀ r, intervalsGo P t cap acc ivs ≠ .ok r := by
+  induction ivs generalizing acc with
+  | nil => simp at hiv
+  | cons iv0 rest ih =>
+    intro r
+    simp only [intervalsGo]
+    split
+    · simp
+    · rename_i sd ep hsum
+      cases hiv0 : iv0 with
+      | nil => have := hlen iv0 (by simp); rw [hiv0] at this; simp at this
+      | cons s0 tl =>
+        simp only
+        split
+        · simp
+        · rename_i sl hstart
+          split
+          · simp
+          · rename_i endCap hlegs
+            simp only [List.mem_cons] at hiv
+            rcases hiv with rfl | hiv
+            · exfalso
+              have htl : tl ≠ [] := by
+                intro h; have := hlen iv (by simp); rw [hiv0, h] at this; simp at this
+              rw [hiv0] at hs
+              exact legsGo_fails_overload P t cap ep sl s0 tl htl s hs hover endCap hlegs
+            · exact ih _ (fun iv' h' => hlen iv' (by simp [h'])) hiv r
+
+/-- the intervals produced by the splitting cover all stops -/
+theorem splitGo_flatten (cur rest : List Stop) : (splitGo cur rest).flatten = cur.reverse ++ rest := by
+  induction rest generalizing cur with
+  | nil => simp [splitGo]
+  | cons s rest ih =>
+    simp only [splitGo]
+    split
+    · simp [ih]
+    · simp [ih]
+
+theorem intervals_cover (stops : List Stop) (ivs : List (List Stop)) (h : intervals stops = some ivs)
+    (h2 : 2 ≤ stops.length) : ivs.flatten = stops ∧ ∀ iv ∈ ivs, 2 ≤ iv.length := by
+  unfold intervals at h
+  cases stops with
+  | nil => simp at h2
+  | cons s0 rest =>
+    cases rest with
+    | nil => simp at h2
+    | cons s1 rest =>
+      simp only at h
+      split at h
+      · simp at h
+      · rename_i hall
+        simp only [Option.some.injEq] at h
+        subst h
+        refine ⟨by simp [splitGo_flatten], ?_⟩
+        intro iv hiv
+        simp only [List.any_eq_true, decide_eq_true_eq, not_exists, not_and, Nat.not_lt] at hall
+        exact hall iv hiv
+
+/-- breach half 2 (load above capacity): a stop of a tour with at least two stops that reports a load the
+vehicle cannot fit is rejected -/
+theorem checker_rejects_load_above_capacity (P : Problem) (S : Solution) (t : Tour) (v : VType) (s : Stop)
+    (ht : t ∈ S.tours) (hv : findVehicle P t.vehicleId = some v) (h2 : 2 ≤ t.stops.length) (hs : s ∈ t.stops)
+    (hover : lfit v.capacity s.load = false) : check P S ≠ [] := by
+  apply check_ne_nil_of_group P S .load
+  apply groupErrors_ne_nil P S .load (firstErrOf (checkLoadTour P) S.tours) (by simp [runGroup, checkLoad])
+  apply firstErrOf_ne_none _ _ t ht
+  unfold checkLoadTour
+  simp only [hv]
+  cases hi : intervals t.stops with
+  | none => simp
+  | some ivs =>
+    simp only
+    obtain ⟨hflat, hlen⟩ := intervals_cover t.stops ivs hi h2
+    have : s ∈ ivs.flatten := by rw [hflat]; exact hs
+    obtain ⟨iv, hiv, hsiv⟩ := List.mem_flatten.1 this
+    cases hgo : intervalsGo P t v.capacity [] ivs with
+    | error c => simp
+    | ok r => exact absurd hgo (intervalsGo_fails_overload P t v.capacity [] ivs hlen iv hiv s hsiv hover r)
+
+end C12
+
+namespace C12
+open Spec
+
+/-! ## assignment (`check_jobs_presence`): the breach classes -/
+
+theorem mem_dedup {α} [BEq α] [LawfulBEq α] (x : α) (l : List α) : x ∈ dedup l ↔ x ∈ l := by
+  induction l with
+  | nil => simp [dedup]
+  | cons y rest ih =>
+    simp only [dedup, List.mem_cons, List.mem_filter, ih]
+    constructor
+    · rintro (h | ⟨h, _⟩)
+      · exact Or.inl h
+      · exact Or.inr h
+    · rintro (h | h)
+      · exact Or.inl h
+      · by_cases hxy : x = y
+        · exact Or.inl hxy
+        · exact Or.inr ⟨h, by simpa using hxy⟩
+
+/-- any true condition of the chain of tests makes `check_jobs_presence` fail -/
+theorem checkPresence_ne_none (P : Problem) (S : Solution)
+    (h : multiTourGo [] (jobActs S) = true ∨ (usedIds S).any (jobTasksBad P S) = true ∨
+         hasDup (unassignedIds S) = true ∨
+         (unassignedIds S).any (fun id => (findJob P id).isNone || (usedIds S).contains id) = true) :
+    checkPresence P S ≠ none := by
+  unfold checkPresence
+  split
+  · simp
+  · split
+    · simp
+    · simp only
+      split
+      · simp
+      · split
+        · simp
+        · rename_i h1 h2 h3 h4
+          rcases h with h | h | h | h
+          · exact absurd h h1
+          · exact absurd h h2
+          · exact absurd h h3
+          · exact absurd h h4
+
+theorem presence_rejects (P : Problem) (S : Solution) (h : checkPresence P S ≠ none) : check P S ≠ [] := by
+  apply check_ne_nil_of_group P S .assignment
+  exact groupErrors_ne_nil P S .assignment (checkPresence P S) (by simp [runGroup, checkAssignment]) h
+
+/-- number of activities of a job counted the way the code does equals the specification's `served` -/
+theorem countP_append {α} (p : α → Bool) (a b : List α) : countP p (a ++ b) = countP p a + countP p b := by
+  induction a with
+  | nil => simp [countP]
+  | cons x a ih => simp only [List.cons_append, countP, ih]; omega
+
+theorem countP_map {α β} (p : β → Bool) (f : α → β) (l : List α) : countP p (l.map f) = countP (fun x => p (f x)) l := by
+  induction l with
+  | nil => simp [countP]
+  | cons x l ih => simp [countP, ih]
+
+theorem assigned_eq_served (S : Solution) (id : String) :
+    countP (fun p => p.2.2.jobId == id) (jobActs S) = served S id := by
+  unfold jobActs served
+  induction S.tours with
+  | nil => simp [countP]
+  | cons t rest ih =>
+    simp only [List.flatMap_cons, countP_append, List.map_cons, List.sum_cons, ih]
+    congr 1
+    rw [countP_map]
+    rfl
+
+theorem countP_pos_iff {α} (p : α → Bool) (l : List α) : 0 < countP p l ↔ ∃ x ∈ l, p x = true := by
+  induction l with
+  | nil => simp [countP]
+  | cons x l ih =>
+    simp only [countP, List.mem_cons, exists_eq_or_imp]
+    by_cases hx : p x = true
+    · simp [hx]; omega
+    · simp only [hx, if_false, Nat.zero_add, ih, Bool.false_eq_true, false_or]
+
+/-- a job id is used iff some job activity carries it iff `served` is positive -/
+theorem mem_usedIds_iff (S : Solution) (id : String) : id ∈ usedIds S ↔ 0 < served S id := by
+  unfold usedIds
+  rw [mem_dedup, ← assigned_eq_served, countP_pos_iff]
+  simp only [List.mem_map]
+  constructor
+  · rintro ⟨e, he, rfl⟩; exact ⟨e, he, by simp⟩
+  · rintro ⟨e, he, h⟩; exact ⟨e, he, by simpa using h⟩
+
+theorem findJob_some (P : Problem) (id : String) (j : Job) (h : findJob P id = some j) : j ∈ P.jobs ∧ j.id = id := by
+  unfold findJob at h
+  exact ⟨List.mem_of_find?_eq_some h, by simpa using List.find?_some h⟩
+
+theorem partition_unpack (P : Problem) (S : Solution) (h : partitionOk P S = true) :
+    (∀ j ∈ P.jobs, jobOk S j = true) ∧
+    (∀ t ∈ S.tours, ∀ p ∈ tourJobActs t, (findJob P p.2.jobId).isSome = true) ∧
+    (∀ id ∈ unassignedIds S, (findJob P id).isSome = true) := by
+  simpa [partitionOk, List.all_eq_true, and_assoc] using h
+
+/-- breach *assigned and unassigned*, half 1 -/
+theorem breach_assigned_and_unassigned_invalid (P : Problem) (S : Solution) (id : String)
+    (hu : id ∈ unassignedIds S) (ha : id ∈ usedIds S) : validSolution P S = false := by
+  cases hval : validSolution P S with
+  | false => rfl
+  | true =>
+    exfalso
+    obtain ⟨hjobs, _, hun⟩ := partition_unpack P S ((valid_iff P S).1 hval).2.1
+    have hk := hun id hu
+    cases hf : findJob P id with
+    | none => simp [hf] at hk
+    | some j =>
+      obtain ⟨hj, hid⟩ := findJob_some P id j hf
+      have hok := hjobs j hj
+      have hserved := (mem_usedIds_iff S id).1 ha
+      have hlisted : 0 < listed S id := by
+        unfold listed; rw [countP_pos_iff]; exact ⟨id, hu, by simp⟩
+      unfold jobOk at hok
+      rw [hid] at hok
+      simp only [Bool.or_eq_true, Bool.and_eq_true, beq_iff_eq] at hok
+      rcases hok with ⟨⟨⟨_, h0⟩, _⟩, _⟩ | ⟨h0, _⟩
+      · omega
+      · omega
+
+/-- half 2 -/
+theorem checker_rejects_assigned_and_unassigned (P : Problem) (S : Solution) (id : String)
+    (hu : id ∈ unassignedIds S) (ha : id ∈ usedIds S) : check P S ≠ [] := by
+  apply presence_rejects
+  apply checkPresence_ne_none
+  refine Or.inr (Or.inr (Or.inr ?_))
+  rw [List.any_eq_true]
+  exact ⟨id, hu, by simp [List.contains_iff_mem, ha]⟩
+
+/-- breach *unknown job* (listed unassigned), both halves -/
+theorem breach_unknown_unassigned_invalid (P : Problem) (S : Solution) (id : String)
+    (hu : id ∈ unassignedIds S) (hk : findJob P id = none) : validSolution P S = false := by
+  cases hval : validSolution P S with
+  | false => rfl
+  | true =>
+    exfalso
+    obtain ⟨_, _, hun⟩ := partition_unpack P S ((valid_iff P S).1 hval).2.1
+    have := hun id hu
+    simp [hk] at this
+
+theorem checker_rejects_unknown_unassigned (P : Problem) (S : Solution) (id : String)
+    (hu : id ∈ unassignedIds S) (hk : findJob P id = none) : check P S ≠ [] := by
+  apply presence_rejects
+  apply checkPresence_ne_none
+  refine Or.inr (Or.inr (Or.inr ?_))
+  rw [List.any_eq_true]
+  exact ⟨id, hu, by simp [hk]⟩
+
+/-- a job activity of a tour shows up in `jobActs` -/
+theorem mem_jobActs (S : Solution) (t : Tour) (ht : t ∈ S.tours) (p : Nat × Act) (hp : p ∈ tourJobActs t) :
+    (tourKey t, p.1, p.2) ∈ jobActs S := by
+  unfold jobActs
+  rw [List.mem_flatMap]
+  refine ⟨t, ht, ?_⟩
+  rw [List.mem_map]
+  exact ⟨p, hp, rfl⟩
+
+theorem mem_usedIds_of_act (S : Solution) (t : Tour) (ht : t ∈ S.tours) (p : Nat × Act) (hp : p ∈ tourJobActs t) :
+    p.2.jobId ∈ usedIds S := by
+  unfold usedIds
+  rw [mem_dedup, List.mem_map]
+  exact ⟨_, mem_jobActs S t ht p hp, rfl⟩
+
+/-- breach *unknown job* (served in a tour), both halves -/
+theorem breach_unknown_job_invalid (P : Problem) (S : Solution) (t : Tour) (ht : t ∈ S.tours) (p : Nat × Act)
+    (hp : p ∈ tourJobActs t) (hk : findJob P p.2.jobId = none) : validSolution P S = false := by
+  cases hval : validSolution P S with
+  | false => rfl
+  | true =>
+    exfalso
+    obtain ⟨_, hacts, _⟩ := partition_unpack P S ((valid_iff P S).1 hval).2.1
+    have := hacts t ht p hp
+    simp [hk] at this
+
+theorem checker_rejects_unknown_job (P : Problem) (S : Solution) (t : Tour) (ht : t ∈ S.tours) (p : Nat × Act)
+    (hp : p ∈ tourJobActs t) (hk : findJob P p.2.jobId = none) : check P S ≠ [] := by
+  apply presence_rejects
+  apply checkPresence_ne_none
+  refine Or.inr (Or.inl ?_)
+  rw [List.any_eq_true]
+  exact ⟨p.2.jobId, mem_usedIds_of_act S t ht p hp, by simp [jobTasksBad, hk]⟩
+
+theorem hasDup_of_count {α} [BEq α] [LawfulBEq α] (l : List α) (x : α) (h : 2 ≤ countP (fun y => y == x) l) :
+    hasDup l = true := by
+  induction l with
+  | nil => simp [countP] at h
+  | cons y rest ih =>
+    simp only [hasDup, Bool.or_eq_true]
+    simp only [countP] at h
+    by_cases hy : (y == x) = true
+    · have hyx : y = x := by simpa using hy
+      subst hyx
+      simp only [hy, if_true] at h
+      have : 0 < countP (fun z => z == y) rest := by omega
+      obtain ⟨z, hz, hzy⟩ := (countP_pos_iff _ _).1 this
+      have : z = y := by simpa using hzy
+      subst this
+      exact Or.inl (by simpa using hz)
+    · simp only [hy, Bool.false_eq_true, if_false, Nat.zero_add] at h
+      exact Or.inr (ih h)
+
+/-- breach *duplicated job* (listed twice as unassigned), both halves -/
+theorem breach_duplicated_unassigned_invalid (P : Problem) (S : Solution) (id : String)
+    (h2 : 2 ≤ listed S id) : validSolution P S = false := by
+  cases hval : validSolution P S with
+  | false => rfl
+  | true =>
+    exfalso
+    obtain ⟨hjobs, _, hun⟩ := partition_unpack P S ((valid_iff P S).1 hval).2.1
+    have hmem : id ∈ unassignedIds S := by
+      have : 0 < listed S id := by omega
+      unfold listed at this
+      obtain ⟨x, hx, hxe⟩ := (countP_pos_iff _ _).1 this
+      have : x = id := by simpa using hxe
+      rw [← this]; exact hx
+    have hk := hun id hmem
+    cases hf : findJob P id with
+    | none => simp [hf] at hk
+    | some j =>
+      obtain ⟨hj, hid⟩ := findJob_some P id j hf
+      have hok := hjobs j hj
+      unfold jobOk at hok
+      rw [hid] at hok
+      simp only [Bool.or_eq_true, Bool.and_eq_true, beq_iff_eq] at hok
+      rcases hok with ⟨⟨⟨_, h0⟩, _⟩, _⟩ | ⟨_, h0⟩ <;> omega
+
+theorem checker_rejects_duplicated_unassigned (P : Problem) (S : Solution) (id : String)
+    (h2 : 2 ≤ listed S id) : check P S ≠ [] := by
+  apply presence_rejects
+  apply checkPresence_ne_none
+  exact Or.inr (Or.inr (Or.inl (hasDup_of_count _ id h2)))
+
+/-- breach *duplicated job* / partly *dropped job*: a job that is served, but not with exactly one activity per
+task, both halves -/
+theorem breach_task_count_invalid (P : Problem) (S : Solution) (j : Job) (hj : findJob P j.id = some j)
+    (hs : 0 < served S j.id) (hne : served S j.id ≠ j.tasks.length) : validSolution P S = false := by
+  cases hval : validSolution P S with
+  | false => rfl
+  | true =>
+    exfalso
+    obtain ⟨hjobs, _, _⟩ := partition_unpack P S ((valid_iff P S).1 hval).2.1
+    have hok := hjobs j (findJob_some P j.id j hj).1
+    unfold jobOk at hok
+    simp only [Bool.or_eq_true, Bool.and_eq_true, beq_iff_eq] at hok
+    rcases hok with ⟨⟨⟨h0, _⟩, _⟩, _⟩ | ⟨h0, _⟩ <;> omega
+
+theorem checker_rejects_task_count (P : Problem) (S : Solution) (j : Job) (hj : findJob P j.id = some j)
+    (hs : 0 < served S j.id) (hne : served S j.id ≠ j.tasks.length) : check P S ≠ [] := by
+  apply presence_rejects
+  apply checkPresence_ne_none
+  refine Or.inr (Or.inl ?_)
+  rw [List.any_eq_true]
+  refine ⟨j.id, (mem_usedIds_iff S j.id).2 hs, ?_⟩
+  unfold jobTasksBad
+  simp only [hj, assigned_eq_served]
+  have : (j.tasks.length != served S j.id) = true := by simp; omega
+  simp [this]
+
+end C12
+
+namespace C12
+open Spec
+
+/-! ## a job split over tours; completeness of `check_jobs_presence` (the partition theorem) -/
+
+abbrev Entry := (String × Nat) × Nat × Act
+
+def uniqueOwners (owners : List (String × (String × Nat))) : Prop :=
+  ∀ o1 ∈ owners, ∀ o2 ∈ owners, o1.1 = o2.1 → o1 = o2
+
+theorem find_owner_some (owners : List (String × (String × Nat))) (id : String) (o : String × (String × Nat))
+    (h : owners.find? (fun o => o.1 == id) = some o) : o ∈ owners ∧ o.1 = id :=
+  ⟨List.mem_of_find?_eq_some h, by simpa using List.find?_some h⟩
+
+theorem find_owner_none (owners : List (String × (String × Nat))) (id : String)
+    (h : owners.find? (fun o => o.1 == id) = none) : ∀ o ∈ owners, o.1 ≠ id := by
+  intro o ho heq
+  rw [List.find?_eq_none] at h
+  exact h o ho (by simpa using heq)
+
+theorem uniqueOwners_cons (owners : List (String × (String × Nat))) (id : String) (key : String × Nat)
+    (hu : uniqueOwners owners) (hn : ∀ o ∈ owners, o.1 ≠ id) : uniqueOwners ((id, key) :: owners) := by
+  intro o1 h1 o2 h2 heq
+  simp only [List.mem_cons] at h1 h2
+  rcases h1 with rfl | h1 <;> rcases h2 with rfl | h2
+  · rfl
+  · exact absurd heq.symm (hn o2 h2)
+  · exact absurd heq (hn o1 h1)
+  · exact hu o1 h1 o2 h2 heq
+
+/-- an activity whose job is already owned by another (vehicle, shift) makes the first loop fail -/
+theorem multiTourGo_conflict (owners : List (String × (String × Nat))) (l : List Entry) (hu : uniqueOwners owners)
+    (h : ∃ e ∈ l, ∃ o ∈ owners, o.1 = e.2.2.jobId ∧ o.2 ≠ e.1) : multiTourGo owners l = true := by
+  induction l generalizing owners with
+  | nil => simp at h
+  | cons e rest ih =>
+    obtain ⟨key, idx, a⟩ := e
+    simp only [multiTourGo]
+    cases hfind : owners.find? (fun o => o.1 == a.jobId) with
+    | some o' =>
+      obtain ⟨ho', hid'⟩ := find_owner_some owners a.jobId o' hfind
+      simp only
+      by_cases hk : o'.2 = key
+      · have : (o'.2 != key) = false := by simp [hk]
+        rw [this]
+        simp only [Bool.false_eq_true, if_false]
+        apply ih owners hu
+        obtain ⟨e', he', o, ho, hoid, hokey⟩ := h
+        simp only [List.mem_cons] at he'
+        rcases he' with rfl | he'
+        · exfalso
+          have := hu o ho o' ho' (by rw [hoid, hid'])
+          subst this
+          exact hokey hk
+        · exact ⟨e', he', o, ho, hoid, hokey⟩
+      · have : (o'.2 != key) = true := by simpa using hk
+        rw [this]; rfl
+    | none =>
+      have hn := find_owner_none owners a.jobId hfind
+      simp only
+      apply ih _ (uniqueOwners_cons owners a.jobId key hu hn)
+      obtain ⟨e', he', o, ho, hoid, hokey⟩ := h
+      simp only [List.mem_cons] at he'
+      rcases he' with rfl | he'
+      · exact absurd hoid (hn o ho)
+      · exact ⟨e', he', o, by simp [ho], hoid, hokey⟩
+
+/-- two activities of one job under different (vehicle, shift) keys make the first loop fail -/
+theorem multiTourGo_two (owners : List (String × (String × Nat))) (l : List Entry) (hu : uniqueOwners owners)
+    (h : ∃ e1 ∈ l, ∃ e2 ∈ l, e1.2.2.jobId = e2.2.2.jobId ∧ e1.1 ≠ e2.1) : multiTourGo owners l = true := by
+  induction l generalizing owners with
+  | nil => simp at h
+  | cons e rest ih =>
+    obtain ⟨key, idx, a⟩ := e
+    obtain ⟨e1, he1, e2, he2, hid, hkey⟩ := h
+    -- after the head is processed somebody owns `a.jobId` under `key`
+    have step : ∀ owners', uniqueOwners owners' → (∃ o ∈ owners', o.1 = a.jobId ∧ o.2 = key) →
+        multiTourGo owners' rest = true := by
+      intro owners' hu' ⟨o, ho, hoid, hokey⟩
+      simp only [List.mem_cons] at he1 he2
+      rcases he1 with rfl | he1 <;> rcases he2 with rfl | he2
+      · exact absurd rfl hkey
+      · exact multiTourGo_conflict owners' rest hu' ⟨e2, he2, o, ho, by rw [hoid]; exact hid, by rw [hokey]; exact hkey⟩
+      · exact multiTourGo_conflict owners' rest hu' ⟨e1, he1, o, ho, by rw [hoid]; exact hid.symm, by rw [hokey]; exact fun h => hkey h.symm⟩
+      · exact ih owners' hu' ⟨e1, he1, e2, he2, hid, hkey⟩
+    simp only [multiTourGo]
+    cases hfind : owners.find? (fun o => o.1 == a.jobId) with
+    | some o' =>
+      obtain ⟨ho', hid'⟩ := find_owner_some owners a.jobId o' hfind
+      simp only
+      by_cases hk : o'.2 = key
+      · have : (o'.2 != key) = false := by simp [hk]
+        rw [this]
+        simp only [Bool.false_eq_true, if_false]
+        exact step owners hu ⟨o', ho', hid', hk⟩
+      · have : (o'.2 != key) = true := by simpa using hk
+        rw [this]; rfl
+    | none =>
+      have hn := find_owner_none owners a.jobId hfind
+      simp only
+      exact step _ (uniqueOwners_cons owners a.jobId key hu hn) ⟨(a.jobId, key), by simp, rfl, rfl⟩
+
+/-- when all activities of each job carry one key the first loop passes -/
+theorem multiTourGo_false (owners : List (String × (String × Nat))) (l : List Entry) (hu : uniqueOwners owners)
+    (hc : ∀ e ∈ l, ∀ o ∈ owners, o.1 = e.2.2.jobId → o.2 = e.1)
+    (hp : ∀ e1 ∈ l, ∀ e2 ∈ l, e1.2.2.jobId = e2.2.2.jobId → e1.1 = e2.1) : multiTourGo owners l = false := by
+  induction l generalizing owners with
+  | nil => rfl
+  | cons e rest ih =>
+    obtain ⟨key, idx, a⟩ := e
+    simp only [multiTourGo]
+    cases hfind : owners.find? (fun o => o.1 == a.jobId) with
+    | some o' =>
+      obtain ⟨ho', hid'⟩ := find_owner_some owners a.jobId o' hfind
+      have hk : o'.2 = key := hc (key, idx, a) (by simp) o' ho' hid'
+      have : (o'.2 != key) = false := by simp [hk]
+      simp only [this, Bool.false_eq_true, if_false]
+      exact ih owners hu (fun e he => hc e (by simp [he])) (fun e1 h1 e2 h2 => hp e1 (by simp [h1]) e2 (by simp [h2]))
+    | none =>
+      have hn := find_owner_none owners a.jobId hfind
+      simp only
+      apply ih _ (uniqueOwners_cons owners a.jobId key hu hn)
+      · intro e he o ho hoid
+        simp only [List.mem_cons] at ho
+        rcases ho with rfl | ho
+        · exact hp (key, idx, a) (by simp) e (by simp [he]) hoid
+        · exact hc e (by simp [he]) o ho hoid
+      · exact fun e1 h1 e2 h2 => hp e1 (by simp [h1]) e2 (by simp [h2])
+
+theorem mem_jobActs_iff (S : Solution) (e : Entry) :
+    e ∈ jobActs S ↔ ∃ t ∈ S.tours, ∃ p ∈ tourJobActs t, e = (tourKey t, p.1, p.2) := by
+  unfold jobActs
+  rw [List.mem_flatMap]
+  constructor
+  · rintro ⟨t, ht, he⟩
+    rw [List.mem_map] at he
+    obtain ⟨p, hp, rfl⟩ := he
+    exact ⟨t, ht, p, hp, rfl⟩
+  · rintro ⟨t, ht, p, hp, rfl⟩
+    exact ⟨t, ht, List.mem_map.2 ⟨p, hp, rfl⟩⟩
+
+/-- breach *job split over tours*, half 2 -/
+theorem checker_rejects_job_split (P : Problem) (S : Solution) (t1 t2 : Tour) (p1 p2 : Nat × Act)
+    (h1 : t1 ∈ S.tours) (h2 : t2 ∈ S.tours) (hp1 : p1 ∈ tourJobActs t1) (hp2 : p2 ∈ tourJobActs t2)
+    (hid : p1.2.jobId = p2.2.jobId) (hkey : tourKey t1 ≠ tourKey t2) : check P S ≠ [] := by
+  apply presence_rejects
+  apply checkPresence_ne_none
+  refine Or.inl (multiTourGo_two [] (jobActs S) (by intro o1 h; simp at h) ?_)
+  exact ⟨_, mem_jobActs S t1 h1 p1 hp1, _, mem_jobActs S t2 h2 p2 hp2, hid, hkey⟩
+
+theorem le_sum_of_mem {α} (l : List α) (f : α → Nat) (c : α) (hc : c ∈ l) : f c ≤ (l.map f).sum := by
+  induction l with
+  | nil => simp at hc
+  | cons y r ih =>
+    simp only [List.map_cons, List.sum_cons, List.mem_cons] at *
+    rcases hc with rfl | hc
+    · omega
+    · have := ih hc; omega
+
+theorem sum_ge_two {α} (l : List α) (f : α → Nat) (a b : α) (ha : a ∈ l) (hb : b ∈ l) (hne : a ≠ b) :
+    f a + f b ≤ (l.map f).sum := by
+  induction l with
+  | nil => simp at ha
+  | cons x rest ih =>
+    simp only [List.map_cons, List.sum_cons, List.mem_cons] at *
+    rcases ha with rfl | ha <;> rcases hb with rfl | hb
+    · exact absurd rfl hne
+    · have := le_sum_of_mem rest f b hb; omega
+    · have := le_sum_of_mem rest f a ha; omega
+    · have := ih ha hb; omega
+
+theorem servedIn_pos (t : Tour) (p : Nat × Act) (hp : p ∈ tourJobActs t) : 0 < servedIn t p.2.jobId := by
+  unfold servedIn
+  rw [countP_pos_iff]
+  exact ⟨p, hp, by simp⟩
+
+/-- the activities of a completely served job all lie in one tour -/
+theorem same_tour_of_jobOk (S : Solution) (j : Job) (hne : j.tasks ≠ []) (hok : jobOk S j = true)
+    (t1 t2 : Tour) (h1 : t1 ∈ S.tours) (h2 : t2 ∈ S.tours)
+    (hs1 : 0 < servedIn t1 j.id) (hs2 : 0 < servedIn t2 j.id) : t1 = t2 := by
+  by_cases hne12 : t1 = t2
+  · exact hne12
+  exfalso
+  have hsum := sum_ge_two S.tours (fun t => servedIn t j.id) t1 t2 h1 h2 hne12
+  have hlen : 0 < j.tasks.length := by cases hj : j.tasks with | nil => exact absurd hj hne | cons _ _ => simp
+  unfold jobOk at hok
+  simp only [Bool.or_eq_true, Bool.and_eq_true, beq_iff_eq, List.all_eq_true] at hok
+  rcases hok with ⟨⟨⟨hserved, _⟩, hall⟩, _⟩ | ⟨h0, _⟩
+  · have a1 := hall t1 h1
+    have a2 := hall t2 h2
+    unfold served at hserved
+    rcases a1 with a1 | a1 <;> rcases a2 with a2 | a2 <;> omega
+  · unfold served at h0
+    omega
+
+/-- breach *job split over tours*, half 1 -/
+theorem breach_job_split_invalid (P : Problem) (S : Solution) (t1 t2 : Tour) (p1 p2 : Nat × Act)
+    (h1 : t1 ∈ S.tours) (h2 : t2 ∈ S.tours) (hp1 : p1 ∈ tourJobActs t1) (hp2 : p2 ∈ tourJobActs t2)
+    (hid : p1.2.jobId = p2.2.jobId) (hkey : tourKey t1 ≠ tourKey t2)
+    (hshape : ∀ j ∈ P.jobs, j.tasks ≠ []) : validSolution P S = false := by
+  cases hval : validSolution P S with
+  | false => rfl
+  | true =>
+    exfalso
+    obtain ⟨hjobs, hacts, _⟩ := partition_unpack P S ((valid_iff P S).1 hval).2.1
+    have hk := hacts t1 h1 p1 hp1
+    cases hf : findJob P p1.2.jobId with
+    | none => simp [hf] at hk
+    | some j =>
+      obtain ⟨hj, hjid⟩ := findJob_some P _ j hf
+      have e := same_tour_of_jobOk S j (hshape j hj) (hjobs j hj) t1 t2 h1 h2
+        (by rw [hjid]; exact servedIn_pos t1 p1 hp1) (by rw [hjid, hid]; exact servedIn_pos t2 p2 hp2)
+      exact hkey (by rw [e])
+
+/-! ### counting lemmas for the final comparison of `check_jobs_presence` -/
+
+theorem count_zero_of_not_mem {α} [BEq α] [LawfulBEq α] (l : List α) (y : α) (h : l.contains y = false) :
+    countP (fun z => z == y) l = 0 := by
+  induction l with
+  | nil => rfl
+  | cons x rest ih =>
+    simp only [List.contains_cons, Bool.or_eq_false_iff] at h
+    have hxy : (x == y) = false := by
+      have := h.1
+      cases hh : (x == y) with
+      | false => rfl
+      | true =>
+        have e : x = y := by simpa using hh
+        subst e
+        simp at this
+    simp [countP, hxy, ih h.2]
+
+theorem hasDup_false_iff {α} [BEq α] [LawfulBEq α] (l : List α) :
+    hasDup l = false ↔ ∀ x, countP (fun y => y == x) l ≤ 1 := by
+  induction l with
+  | nil => simp [hasDup, countP]
+  | cons y rest ih =>
+    simp only [hasDup, Bool.or_eq_false_iff, ih, countP]
+    constructor
+    · rintro ⟨hc, h⟩ x
+      by_cases hyx : (y == x) = true
+      · have e : y = x := by simpa using hyx
+        subst e
+        have := count_zero_of_not_mem rest y hc
+        simp [this]
+      · simp only [hyx, Bool.false_eq_true, if_false, Nat.zero_add]; exact h x
+    · intro h
+      refine ⟨?_, ?_⟩
+      · cases hc : rest.contains y with
+        | false => rfl
+        | true =>
+          exfalso
+          have hy : y ∈ rest := by simpa using hc
+          have : 0 < countP (fun z => z == y) rest := (countP_pos_iff _ _).2 ⟨y, hy, by simp⟩
+          have := h y
+          simp at this
+          omega
+      · intro x
+        have := h x
+        split at this <;> omega
+
+theorem hasDup_dedup {α} [BEq α] [LawfulBEq α] (l : List α) : hasDup (dedup l) = false := by
+  induction l with
+  | nil => rfl
+  | cons x rest ih =>
+    simp only [dedup, hasDup, Bool.or_eq_false_iff]
+    refine ⟨?_, ?_⟩
+    · simp [List.contains_iff_mem, List.mem_filter]
+    · rw [hasDup_false_iff] at ih ⊢
+      intro y
+      have := ih y
+      have hle : countP (fun z => z == y) ((dedup rest).filter (fun z => !(z == x))) ≤ countP (fun z => z == y) (dedup rest) := by
+        generalize dedup rest = m
+        induction m with
+        | nil => simp [countP]
+        | cons w m ihm =>
+          simp only [List.filter_cons]
+          split
+          · simp only [countP]; omega
+          · simp only [countP]; omega
+      omega
+
+theorem dedup_eq_self {α} [BEq α] [LawfulBEq α] (l : List α) (h : hasDup l = false) : dedup l = l := by
+  induction l with
+  | nil => rfl
+  | cons x rest ih =>
+    simp only [hasDup, Bool.or_eq_false_iff] at h
+    simp only [dedup, ih h.2]
+    congr 1
+    rw [List.filter_eq_self]
+    intro y hy
+    have : ¬ (y = x) := by
+      rintro rfl
+      have : rest.contains y = true := by simpa using hy
+      rw [this] at h; simp at h
+    simpa using this
+
+theorem countP_or_disjoint {α} (p q : α → Bool) (l : List α) (h : ∀ x ∈ l, ¬ (p x = true ∧ q x = true)) :
+    countP (fun x => p x || q x) l = countP p l + countP q l := by
+  induction l with
+  | nil => simp [countP]
+  | cons x rest ih =>
+    simp only [countP, ih (fun y hy => h y (by simp [hy]))]
+    have := h x (by simp)
+    by_cases hp : p x = true <;> by_cases hq : q x = true
+    · exact absurd ⟨hp, hq⟩ this
+    · simp [hp, hq]; omega
+    · simp [hp, hq]; omega
+    · simp [hp, hq]
+
+theorem countP_eq_one_of_nodup {α} [BEq α] [LawfulBEq α] (l : List α) (a : α) (hd : hasDup l = false) (ha : a ∈ l) :
+    countP (fun y => y == a) l = 1 := by
+  have h1 := (hasDup_false_iff l).1 hd a
+  have h2 : 0 < countP (fun y => y == a) l := (countP_pos_iff _ _).2 ⟨a, ha, by simp⟩
+  omega
+
+theorem countP_congr {α} (p q : α → Bool) (l : List α) (h : ∀ x ∈ l, p x = q x) : countP p l = countP q l := by
+  induction l with
+  | nil => rfl
+  | cons x rest ih => simp only [countP, h x (by simp), ih (fun y hy => h y (by simp [hy]))]
+
+/-- a duplicate free sub-list `A` of a duplicate free list `J` has as many elements as `J` has members of `A` -/
+theorem length_eq_countP_contains {α} [BEq α] [LawfulBEq α] (J A : List α) (hJ : hasDup J = false)
+    (hA : hasDup A = false) (hsub : ∀ a ∈ A, a ∈ J) : A.length = countP (fun j => A.contains j) J := by
+  induction A with
+  | nil =>
+    have : ∀ (J : List α), countP (fun j => ([] : List α).contains j) J = 0 := by
+      intro J
+      induction J with
+      | nil => rfl
+      | cons x r ih => simp only [countP, ih]; simp
+    rw [this J]; rfl
+  | cons a A' ih =>
+    simp only [hasDup, Bool.or_eq_false_iff] at hA
+    have hnot : ¬ a ∈ A' := by
+      intro hm
+      have : A'.contains a = true := by simpa using hm
+      rw [this] at hA; simp at hA
+    have e : countP (fun j => (a :: A').contains j) J = countP (fun j => j == a || A'.contains j) J := by
+      apply countP_congr
+      intro x _
+      simp [List.contains_cons]
+    rw [e, countP_or_disjoint]
+    · rw [countP_eq_one_of_nodup J a hJ (hsub a (by simp)), ← ih hA.2 (fun x hx => hsub x (by simp [hx]))]
+      simp; omega
+    · intro x _ ⟨h1, h2⟩
+      have : x = a := by simpa using h1
+      subst this
+      exact hnot (by simpa using h2)
+
+/-- **Partition by counting**: if every member of `J` lies in exactly one of the duplicate free lists `A`, `U ⊆ J`, then
+`|A| + |U| = |J|` -/
+theorem partition_count {α} [BEq α] [LawfulBEq α] (J A U : List α) (hJ : hasDup J = false) (hA : hasDup A = false)
+    (hU : hasDup U = false) (hAJ : ∀ a ∈ A, a ∈ J) (hUJ : ∀ u ∈ U, u ∈ J)
+    (hx : ∀ j ∈ J, (j ∈ A ∧ ¬ j ∈ U) ∨ (¬ j ∈ A ∧ j ∈ U)) : A.length + U.length = J.length := by
+  rw [length_eq_countP_contains J A hJ hA hAJ, length_eq_countP_contains J U hJ hU hUJ, ← countP_or_disjoint]
+  · have : countP (fun x => A.contains x || U.contains x) J = countP (fun _ => true) J := by
+      apply countP_congr
+      intro x hxJ
+      rcases hx x hxJ with ⟨h, _⟩ | ⟨_, h⟩
+      · simp [h]
+      · simp [h]
+    rw [this]
+    clear this hx hUJ hAJ hJ
+    induction J with
+    | nil => rfl
+    | cons x r ih => simp [countP, ih]; omega
+  · intro x hxJ ⟨h1, h2⟩
+    rcases hx x hxJ with ⟨_, h⟩ | ⟨h, _⟩
+    · exact h (by simpa using h2)
+    · exact h (by simpa using h1)
+
+end C12
+
+namespace C12
+open Spec
+
+theorem maxNat_le (ps : List Nat) (m : Nat) (h : ∀ p ∈ ps, p ≤ m) : maxNat ps ≤ m := by
+  induction ps with
+  | nil => simp [maxNat]
+  | cons x rest ih =>
+    simp only [maxNat]
+    have := h x (by simp)
+    have := ih (fun p hp => h p (by simp [hp]))
+    omega
+
+theorem le_minNat (ds : List Nat) (m : Nat) (hne : ds ≠ []) (h : ∀ d ∈ ds, m ≤ d) : m ≤ minNat ds := by
+  induction ds with
+  | nil => exact absurd rfl hne
+  | cons x rest ih =>
+    cases rest with
+    | nil => simpa [minNat] using h x (by simp)
+    | cons y r =>
+      simp only [minNat]
+      have := h x (by simp)
+      have := ih (by simp) (fun d hd => h d (by simp [hd]))
+      omega
+
+theorem mem_idxOfTy (S : Solution) (id : String) (ty : ATy) (n : Nat) (h : n ∈ idxOfTy S id ty) :
+    ∃ e ∈ jobActs S, e.2.2.jobId = id ∧ e.2.2.ty = ty ∧ e.2.1 = n := by
+  unfold idxOfTy at h
+  rw [List.mem_map] at h
+  obtain ⟨e, he, rfl⟩ := h
+  rw [List.mem_filter] at he
+  obtain ⟨he, hc⟩ := he
+  simp only [Bool.and_eq_true, beq_iff_eq] at hc
+  exact ⟨e, he, hc.1, hc.2, rfl⟩
+
+/-- **Completeness of `check_jobs_presence` (the partition theorem)**: if every job of the problem is either served
+completely inside one tour (pickups before deliveries) and not listed, or not served and listed exactly once, and no
+unknown id occurs, then the multi-tour test, the per-job task test, the duplicate / unknown / assigned-and-unassigned
+tests of the unassigned list and the final comparison of counts all pass. -/
+theorem presence_complete (P : Problem) (S : Solution) (hids : hasDup (P.jobs.map (fun j => j.id)) = false)
+    (hne : ∀ j ∈ P.jobs, j.tasks ≠ []) (h : partitionOk P S = true) : checkPresence P S = none := by
+  obtain ⟨hjobs, hacts, hun⟩ := partition_unpack P S h
+  -- every entry of `jobActs` belongs to a tour and to a job of the problem
+  have entryJob : ∀ e ∈ jobActs S, ∃ t ∈ S.tours, ∃ p ∈ tourJobActs t, e = (tourKey t, p.1, p.2) ∧
+      ∃ j, findJob P p.2.jobId = some j ∧ j ∈ P.jobs ∧ j.id = p.2.jobId := by
+    intro e he
+    obtain ⟨t, ht, p, hp, rfl⟩ := (mem_jobActs_iff S e).1 he
+    have hk := hacts t ht p hp
+    cases hf : findJob P p.2.jobId with
+    | none => simp [hf] at hk
+    | some j =>
+      obtain ⟨hj, hid⟩ := findJob_some P _ j hf
+      exact ⟨t, ht, p, hp, rfl, j, hf, hj, hid⟩
+  -- two activities of one job lie in the same tour
+  have sameTour : ∀ t1 ∈ S.tours, ∀ t2 ∈ S.tours, ∀ p1 ∈ tourJobActs t1, ∀ p2 ∈ tourJobActs t2,
+      p1.2.jobId = p2.2.jobId → t1 = t2 := by
+    intro t1 h1 t2 h2 p1 hp1 p2 hp2 hid
+    have hk := hacts t1 h1 p1 hp1
+    cases hf : findJob P p1.2.jobId with
+    | none => simp [hf] at hk
+    | some j =>
+      obtain ⟨hj, hjid⟩ := findJob_some P _ j hf
+      exact same_tour_of_jobOk S j (hne j hj) (hjobs j hj) t1 t2 h1 h2
+        (by rw [hjid]; exact servedIn_pos t1 p1 hp1) (by rw [hjid, hid]; exact servedIn_pos t2 p2 hp2)
+  -- a known job with a positive number of activities is served completely and not listed
+  have servedJob : ∀ j ∈ P.jobs, 0 < served S j.id →
+      served S j.id = j.tasks.length ∧ listed S j.id = 0 ∧ ∀ t ∈ S.tours, pickupsFirst t j.id = true := by
+    intro j hj hpos
+    have hok := hjobs j hj
+    unfold jobOk at hok
+    simp only [Bool.or_eq_true, Bool.and_eq_true, beq_iff_eq, List.all_eq_true] at hok
+    rcases hok with ⟨⟨⟨h1, h2⟩, _⟩, h3⟩ | ⟨h0, _⟩
+    · exact ⟨h1, h2, h3⟩
+    · omega
+  have listedLe : ∀ j ∈ P.jobs, listed S j.id ≤ 1 := by
+    intro j hj
+    have hok := hjobs j hj
+    unfold jobOk at hok
+    simp only [Bool.or_eq_true, Bool.and_eq_true, beq_iff_eq] at hok
+    rcases hok with ⟨⟨⟨_, h2⟩, _⟩, _⟩ | ⟨_, h1⟩ <;> omega
+  have unJob : ∀ id ∈ unassignedIds S, ∃ j, findJob P id = some j ∧ j ∈ P.jobs ∧ j.id = id := by
+    intro id hid
+    have hk := hun id hid
+    cases hf : findJob P id with
+    | none => simp [hf] at hk
+    | some j => obtain ⟨hj, hjid⟩ := findJob_some P _ j hf; exact ⟨j, rfl, hj, hjid⟩
+  have listedPos : ∀ id ∈ unassignedIds S, 0 < listed S id := by
+    intro id hid
+    unfold listed; rw [countP_pos_iff]; exact ⟨id, hid, by simp⟩
+  -- 1: the multi-tour loop
+  have step1 : multiTourGo [] (jobActs S) = false := by
+    apply multiTourGo_false [] (jobActs S) (by intro o1 h; simp at h) (by intro e _ o ho; simp at ho)
+    intro e1 he1 e2 he2 hid
+    obtain ⟨t1, ht1, p1, hp1, rfl, _⟩ := entryJob e1 he1
+    obtain ⟨t2, ht2, p2, hp2, rfl, _⟩ := entryJob e2 he2
+    have := sameTour t1 ht1 t2 ht2 p1 hp1 p2 hp2 hid
+    simp [this]
+  -- 2: the per-job loop
+  have step2 : (usedIds S).any (jobTasksBad P S) = false := by
+    rw [List.any_eq_false]
+    intro id hid
+    have hpos := (mem_usedIds_iff S id).1 hid
+    have : ∃ e ∈ jobActs S, e.2.2.jobId = id := by
+      unfold usedIds at hid
+      rw [mem_dedup, List.mem_map] at hid
+      obtain ⟨e, he, rfl⟩ := hid
+      exact ⟨e, he, rfl⟩
+    obtain ⟨e, he, heid⟩ := this
+    obtain ⟨t, ht, p, hp, rfl, j, hf, hj, hjid⟩ := entryJob e he
+    simp only at heid
+    rw [heid] at hf hjid
+    obtain ⟨hs, _, hpf⟩ := servedJob j hj (by rw [hjid]; exact hpos)
+    unfold jobTasksBad
+    simp only [hf, assigned_eq_served]
+    rw [hjid] at hs
+    have e1 : (j.tasks.length != served S id) = false := by simp [hs]
+    rw [e1]
+    simp only [Bool.false_or, Bool.not_eq_true]
+    cases hds : (idxOfTy S id ATy.delivery).isEmpty with
+    | true => simp
+    | false =>
+      cases hps : (idxOfTy S id ATy.pickup).isEmpty with
+      | true => simp
+      | false =>
+        have hle : maxNat (idxOfTy S id ATy.pickup) ≤ minNat (idxOfTy S id ATy.delivery) := by
+          apply maxNat_le
+          intro pi hpi
+          apply le_minNat
+          · intro hnil; rw [hnil] at hds; simp at hds
+          intro di hdi
+          obtain ⟨ep, hep, hepid, hepty, rfl⟩ := mem_idxOfTy S id _ pi hpi
+          obtain ⟨ed, hed, hedid, hedty, rfl⟩ := mem_idxOfTy S id _ di hdi
+          obtain ⟨tp, htp, pp, hpp, rfl, _⟩ := entryJob ep hep
+          obtain ⟨td, htd, pd, hpd, rfl, _⟩ := entryJob ed hed
+          simp only at hepid hepty hedid hedty
+          have := sameTour tp htp td htd pp hpp pd hpd (by rw [hepid, hedid])
+          subst this
+          have hpf' := hpf tp htp
+          unfold pickupsFirst at hpf'
+          rw [List.all_eq_true] at hpf'
+          have := hpf' pp hpp
+          rw [List.all_eq_true] at this
+          have := this pd hpd
+          rw [hjid] at this
+          simp only [hepid, hedid, hepty, hedty, beq_self_eq_true, Bool.and_self, Bool.not_true, Bool.false_or,
+            decide_eq_true_eq] at this
+          exact this
+        simp; omega
+  -- 3: no duplicate in the unassigned list
+  have step3 : hasDup (unassignedIds S) = false := by
+    rw [hasDup_false_iff]
+    intro x
+    by_cases hx : x ∈ unassignedIds S
+    · obtain ⟨j, _, hj, hjid⟩ := unJob x hx
+      have := listedLe j hj
+      rw [hjid] at this
+      exact this
+    · have : countP (fun y => y == x) (unassignedIds S) = 0 := by
+        apply count_zero_of_not_mem
+        cases hc : (unassignedIds S).contains x with
+        | false => rfl
+        | true => exact absurd (by simpa using hc) hx
+      omega
+  -- 4: no unknown and no assigned id in the unassigned list
+  have step4 : (unassignedIds S).any (fun id => (findJob P id).isNone || (usedIds S).contains id) = false := by
+    rw [List.any_eq_false]
+    intro id hid
+    obtain ⟨j, hf, hj, hjid⟩ := unJob id hid
+    have hlp := listedPos id hid
+    have : ¬ id ∈ usedIds S := by
+      intro hu
+      have hpos := (mem_usedIds_iff S id).1 hu
+      obtain ⟨_, h0, _⟩ := servedJob j hj (by rw [hjid]; exact hpos)
+      rw [hjid] at h0
+      omega
+    simp [hf, this]
+  -- 5: the counts
+  have step5 : (unassignedIds S).length + (usedIds S).length = (dedup (P.jobs.map (fun j => j.id))).length := by
+    rw [dedup_eq_self _ hids]
+    have := partition_count (P.jobs.map (fun j => j.id)) (usedIds S) (unassignedIds S) hids (hasDup_dedup _) step3
+      (by
+        intro id hid
+        unfold usedIds at hid
+        rw [mem_dedup, List.mem_map] at hid
+        obtain ⟨e, he, rfl⟩ := hid
+        obtain ⟨t, ht, p, hp, rfl, j, _, hj, hjid⟩ := entryJob e he
+        exact List.mem_map.2 ⟨j, hj, hjid⟩)
+      (by
+        intro id hid
+        obtain ⟨j, _, hj, hjid⟩ := unJob id hid
+        exact List.mem_map.2 ⟨j, hj, hjid⟩)
+      (by
+        intro id hid
+        obtain ⟨j, hj, rfl⟩ := List.mem_map.1 hid
+        have hok := hjobs j hj
+        have hlen : 0 < j.tasks.length := by
+          cases hjt : j.tasks with
+          | nil => exact absurd hjt (hne j hj)
+          | cons _ _ => simp
+        unfold jobOk at hok
+        simp only [Bool.or_eq_true, Bool.and_eq_true, beq_iff_eq] at hok
+        rcases hok with ⟨⟨⟨h1, h2⟩, _⟩, _⟩ | ⟨h0, h1⟩
+        · refine Or.inl ⟨(mem_usedIds_iff S j.id).2 (by omega), ?_⟩
+          intro hu
+          have := listedPos j.id hu
+          omega
+        · refine Or.inr ⟨?_, ?_⟩
+          · intro hu
+            have := (mem_usedIds_iff S j.id).1 hu
+            omega
+          · have : 0 < listed S j.id := by omega
+            unfold listed at this
+            obtain ⟨x, hx, hxe⟩ := (countP_pos_iff _ _).1 this
+            have : x = j.id := by simpa using hxe
+            rw [← this]; exact hx)
+    omega
+  unfold checkPresence
+  rw [step1, step2]
+  simp only [Bool.false_eq_true, if_false, step3, step4]
+  rw [if_neg]
+  simp [step5]
+
+end C12
+
+namespace C12
+open Spec
+
+/-! ## relations (`check_relations`) -/
+
+theorem relations_rejects (P : Problem) (S : Solution) (r : Relation) (hr : r ∈ P.relations)
+    (h : checkRelation P S r ≠ none) : check P S ≠ [] := by
+  apply check_ne_nil_of_group P S .relations
+  apply groupErrors_ne_nil P S .relations (firstErrOf (checkRelation P S) P.relations) (by simp [runGroup, checkRelations])
+  exact firstErrOf_ne_none _ _ r hr h
+
+/-- S17 (repaired in 328387a): an `any` relation whose vehicle has no tour is rejected when some tour serves one of its
+customer jobs -/
+theorem checker_rejects_any_relation_absent_tour (P : Problem) (S : Solution) (r : Relation) (hr : r ∈ P.relations)
+    (hk : r.kind = .any) (hno : findTour S r.vehicleId (r.shiftIndex.getD 0) = none)
+    (o : Tour) (ho : o ∈ S.tours) (id : String) (hid : id ∈ tourIds o) (hj : id ∈ r.jobs) (hres : isReservedId id = false) :
+    check P S ≠ [] := by
+  apply relations_rejects P S r hr
+  unfold checkRelation
+  simp only [hno, hk]
+  rw [if_pos]
+  · simp
+  · rw [List.any_eq_true]
+    refine ⟨o, ho, ?_⟩
+    rw [List.any_eq_true]
+    exact ⟨id, hid, by simp [hres, List.contains_iff_mem, hj]⟩
+
+/-- breach *broken any relation* (the pinned vehicle has a tour), half 2 -/
+theorem checker_rejects_any_relation_other_vehicle (P : Problem) (S : Solution) (r : Relation) (hr : r ∈ P.relations)
+    (hk : r.kind = .any) (t : Tour) (ht : findTour S r.vehicleId (r.shiftIndex.getD 0) = some t)
+    (o : Tour) (ho : o ∈ S.tours) (hov : o.vehicleId ≠ t.vehicleId) (id : String) (hid : id ∈ tourIds o)
+    (hj : id ∈ r.jobs) (hres : isReservedId id = false) : check P S ≠ [] := by
+  apply relations_rejects P S r hr
+  unfold checkRelation
+  simp only [ht, hk]
+  split
+  · simp
+  · split
+    · simp
+    · rw [if_pos]
+      · simp
+      · rw [List.any_eq_true]
+        refine ⟨o, ho, ?_⟩
+        simp only [Bool.and_eq_true, bne_iff_ne, ne_eq, List.any_eq_true]
+        exact ⟨hov, id, hid, by simp [hres, List.contains_iff_mem, hj]⟩
+
+theorem findTour_some (S : Solution) (vid : String) (sh : Nat) (t : Tour) (h : findTour S vid sh = some t) :
+    t ∈ S.tours ∧ t.vehicleId = vid ∧ t.shiftIndex = sh := by
+  unfold findTour at h
+  have := List.find?_some h
+  simp only [Bool.and_eq_true, beq_iff_eq] at this
+  exact ⟨List.mem_of_find?_eq_some h, this.1, this.2⟩
+
+/-- breach *broken any relation*, half 1 (both shapes) -/
+theorem breach_any_relation_invalid (P : Problem) (S : Solution) (r : Relation) (hr : r ∈ P.relations)
+    (hk : r.kind = .any) (o : Tour) (ho : o ∈ S.tours) (hov : o.vehicleId ≠ r.vehicleId) (id : String)
+    (hid : id ∈ tourIds o) (hj : id ∈ r.jobs) (hres : isReservedId id = false) : validSolution P S = false := by
+  cases hval : validSolution P S with
+  | false => rfl
+  | true =>
+    exfalso
+    have hl := ((valid_iff P S).1 hval).2.2.2.2.2.2.1
+    simp only [relationsOk, List.all_eq_true] at hl
+    have := hl r hr
+    unfold relationOk at this
+    simp only [hk, Bool.and_eq_true, List.all_eq_true, Bool.or_eq_true, beq_iff_eq] at this
+    have := this.2 o ho
+    rcases this with h | h
+    · exact hov h
+    · have := h id hid
+      simp [hres, List.contains_iff_mem, hj] at this
+
+/-- the ids kept by the `sequence` filter form a subsequence of the tour -/
+theorem isSubseq_filter (p : String → Bool) (l : List String) : isSubseq (l.filter p) l = true := by
+  induction l with
+  | nil => simp [isSubseq]
+  | cons x rest ih =>
+    simp only [List.filter_cons]
+    split
+    · simp [isSubseq, ih]
+    · cases hf : rest.filter p with
+      | nil => simp [isSubseq]
+      | cons y ys =>
+        rw [hf] at ih
+        simp only [isSubseq]
+        split
+        · rename_i heq
+          -- y = x : still a subsequence of the tail, hence of the whole list
+          have : isSubseq ys rest = true := by
+            have hy : y = x := by simpa using heq
+            subst hy
+            -- drop the head of a subsequence
+            have drop : ∀ (a : String) (xs l : List String), isSubseq (a :: xs) l = true → isSubseq xs l = true := by
+              intro a xs l
+              induction l generalizing a xs with
+              | nil => intro h; simp [isSubseq] at h
+              | cons z zs ihz =>
+                intro h
+                simp only [isSubseq] at h
+                split at h
+                · cases xs with
+                  | nil => simp [isSubseq]
+                  | cons b bs =>
+                    simp only [isSubseq]
+                    split
+                    · exact ihz b bs h
+                    · exact h
+                · cases xs with
+                  | nil => simp [isSubseq]
+                  | cons b bs =>
+                    simp only [isSubseq]
+                    split
+                    · exact ihz b bs (ihz a (b :: bs) h)
+                    · exact ihz a (b :: bs) h
+            exact drop y ys rest ih
+          exact this
+        · exact ih
+
+/-- breach *broken sequence relation*: if the relation's ids do not occur in this order in the named tour (they are not a
+subsequence of its activity ids), the `sequence` arm rejects -/
+theorem checker_rejects_sequence_relation (P : Problem) (S : Solution) (r : Relation) (hr : r ∈ P.relations)
+    (hk : r.kind = .sequence) (t : Tour) (ht : findTour S r.vehicleId (r.shiftIndex.getD 0) = some t)
+    (hbad : isSubseq r.jobs (tourIds t) = false) : check P S ≠ [] := by
+  apply relations_rejects P S r hr
+  unfold checkRelation
+  simp only [ht, hk]
+  split
+  · simp
+  · split
+    · simp
+    · rw [if_pos]
+      · simp
+      · -- neither arm of the comparison can hold
+        have hsub := isSubseq_filter (fun id => r.jobs.contains id) (tourIds t)
+        -- transitivity is not needed: both arms are refuted directly
+        have trans : ∀ (a b c : List String), isSubseq a b = true → isSubseq b c = true → isSubseq a c = true := by
+          intro a b c
+          induction c generalizing a b with
+          | nil =>
+            intro h1 h2
+            cases b with
+            | nil => exact h1
+            | cons y ys => simp [isSubseq] at h2
+          | cons z zs ihc =>
+            intro h1 h2
+            cases a with
+            | nil => simp [isSubseq]
+            | cons x xs =>
+              cases b with
+              | nil => simp [isSubseq] at h1
+              | cons y ys =>
+                simp only [isSubseq] at h1 h2 ⊢
+                by_cases hyz : (y == z) = true
+                · rw [if_pos hyz] at h2
+                  by_cases hxy : (x == y) = true
+                  · rw [if_pos hxy] at h1
+                    have hxz : (x == z) = true := by
+                      have e1 : x = y := by simpa using hxy
+                      have e2 : y = z := by simpa using hyz
+                      simp [e1, e2]
+                    rw [if_pos hxz]
+                    exact ihc xs ys h1 h2
+                  · rw [if_neg hxy] at h1
+                    have := ihc (x :: xs) ys h1 h2
+                    split
+                    · -- x = z: drop the head
+                      cases hzs : zs with
+                      | nil => rw [hzs] at this; simp [isSubseq] at this
+                      | cons w ws =>
+                        rw [hzs] at this
+                        -- `this : isSubseq (x :: xs) (w :: ws)`; we need `isSubseq xs (w :: ws)`
+                        have drop : ∀ (a : String) (us l : List String), isSubseq (a :: us) l = true → isSubseq us l = true := by
+                          intro a us l
+                          induction l generalizing a us with
+                          | nil => intro h; simp [isSubseq] at h
+                          | cons q qs ihq =>
+                            intro h
+                            simp only [isSubseq] at h
+                            split at h
+                            · cases us with
+                              | nil => simp [isSubseq]
+                              | cons b bs =>
+                                simp only [isSubseq]
+                                split
+                                · exact ihq b bs h
+                                · exact h
+                            · cases us with
+                              | nil => simp [isSubseq]
+                              | cons b bs =>
+                                simp only [isSubseq]
+                                split
+                                · exact ihq b bs (ihq a (b :: bs) h)
+                                · exact ihq a (b :: bs) h
+                        exact drop x xs (w :: ws) this
+                    · exact this
+                · rw [if_neg hyz] at h2
+                  have := ihc (x :: xs) (y :: ys) (by simp only [isSubseq]; exact h1) h2
+                  split
+                  · cases hzs : zs with
+                    | nil => rw [hzs] at this; simp [isSubseq] at this
+                    | cons w ws =>
+                      rw [hzs] at this
+                      have drop : ∀ (a : String) (us l : List String), isSubseq (a :: us) l = true → isSubseq us l = true := by
+                        intro a us l
+                        induction l generalizing a us with
+                        | nil => intro h; simp [isSubseq] at h
+                        | cons q qs ihq =>
+                          intro h
+                          simp only [isSubseq] at h
+                          split at h
+                          · cases us with
+                            | nil => simp [isSubseq]
+                            | cons b bs =>
+                              simp only [isSubseq]
+                              split
+                              · exact ihq b bs h
+                              · exact h
+                          · cases us with
+                            | nil => simp [isSubseq]
+                            | cons b bs =>
+                              simp only [isSubseq]
+                              split
+                              · exact ihq b bs (ihq a (b :: bs) h)
+                              · exact ihq a (b :: bs) h
+                      exact drop x xs (w :: ws) this
+                  · exact this
+        split
+        · -- reserved ids present: the subsequence test on the kept ids
+          simp only [Bool.not_eq_true']
+          cases hs : isSubseq r.jobs (List.filter (fun id => r.jobs.contains id) (tourIds t)) with
+          | false => rfl
+          | true => rw [trans _ _ _ hs hsub] at hbad; simp at hbad
+        · simp only [bne_iff_ne, ne_eq]
+          intro heq
+          rw [heq] at hsub
+          rw [hsub] at hbad; simp at hbad
+
+theorem breach_sequence_relation_invalid (P : Problem) (S : Solution) (r : Relation) (hr : r ∈ P.relations)
+    (hk : r.kind = .sequence) (hbad : ∀ t, findTour S r.vehicleId (r.shiftIndex.getD 0) = some t →
+      isSubseq r.jobs (tourIds t) = false) : validSolution P S = false := by
+  cases hval : validSolution P S with
+  | false => rfl
+  | true =>
+    exfalso
+    have hl := ((valid_iff P S).1 hval).2.2.2.2.2.2.1
+    simp only [relationsOk, List.all_eq_true] at hl
+    have := hl r hr
+    unfold relationOk at this
+    simp only [hk, Bool.and_eq_true] at this
+    cases hf : findTour S r.vehicleId (r.shiftIndex.getD 0) with
+    | none => simp [hf] at this
+    | some t => simp only [hf] at this; rw [hbad t hf] at this; simp at this
+
+end C12
+
+namespace C12
+open Spec
+
+/-! ## strict relations: `intersection` against "the ids occur one directly after the other" -/
+
+theorem filterMap_zip_length (L J : List String) :
+    (((L.zip J).filterMap (fun p => if p.1 == p.2 then some p.1 else none)).length) ≤ J.length := by
+  induction J generalizing L with
+  | nil => simp
+  | cons y J' ih =>
+    cases L with
+    | nil => simp
+    | cons x L' =>
+      simp only [List.zip_cons_cons, List.filterMap_cons, List.length_cons]
+      split
+      · have := ih L'; omega
+      · simp only [List.length_cons]; have := ih L'; omega
+
+/-- if the zip-and-filter of `intersection` reproduces the relation, the relation is a prefix of the zipped part -/
+theorem prefix_of_zip_filter (L J : List String)
+    (h : (L.zip J).filterMap (fun p => if p.1 == p.2 then some p.1 else none) = J) : isPrefix J L = true := by
+  induction J generalizing L with
+  | nil => simp [isPrefix]
+  | cons y J' ih =>
+    cases L with
+    | nil => simp at h
+    | cons x L' =>
+      simp only [List.zip_cons_cons, List.filterMap_cons] at h
+      by_cases hxy : (x == y) = true
+      · simp only [hxy, if_true, List.cons.injEq] at h
+        simp only [isPrefix, Bool.and_eq_true]
+        have e : x = y := by simpa using hxy
+        exact ⟨by simp [e], ih L' h.2⟩
+      · simp only [hxy, Bool.false_eq_true, if_false] at h
+        exfalso
+        have := filterMap_zip_length L' J'
+        rw [h] at this
+        simp only [List.length_cons] at this
+        omega
+
+theorem isInfix_of_prefix_drop (J l : List String) (n : Nat) (h : isPrefix J (l.drop n) = true) : isInfix J l = true := by
+  induction l generalizing n with
+  | nil =>
+    simp only [List.drop_nil] at h
+    cases J with
+    | nil => simp [isInfix]
+    | cons y J' => simp [isPrefix] at h
+  | cons x rest ih =>
+    cases n with
+    | zero =>
+      simp only [List.drop_zero] at h
+      simp [isInfix, h]
+    | succ n =>
+      simp only [List.drop_succ_cons] at h
+      simp [isInfix, ih n h]
+
+/-- breach *broken strict relation*, half 2: if the relation's ids do not occur contiguously in the named tour the
+`strict` arm rejects -/
+theorem checker_rejects_strict_relation (P : Problem) (S : Solution) (r : Relation) (hr : r ∈ P.relations)
+    (hk : r.kind = .strict) (t : Tour) (ht : findTour S r.vehicleId (r.shiftIndex.getD 0) = some t)
+    (hbad : isInfix r.jobs (tourIds t) = false) : check P S ≠ [] := by
+  apply relations_rejects P S r hr
+  unfold checkRelation
+  simp only [ht, hk]
+  split
+  · simp
+  · split
+    · simp
+    · rw [if_pos]
+      · simp
+      · simp only [bne_iff_ne, ne_eq]
+        intro heq
+        unfold intersection at heq
+        cases hj : r.jobs with
+        | nil =>
+          rw [hj] at hbad
+          cases hids : tourIds t with
+          | nil => rw [hids] at hbad; simp [isInfix] at hbad
+          | cons y ys => rw [hids] at hbad; simp [isInfix, isPrefix] at hbad
+        | cons r0 rs =>
+          rw [hj] at heq
+          simp only at heq
+          cases hp : positionOf r0 (tourIds t) with
+          | none => simp [hp] at heq
+          | some pos =>
+            simp only [hp] at heq
+            have := prefix_of_zip_filter _ _ heq
+            have := isInfix_of_prefix_drop _ _ pos this
+            rw [← hj] at this
+            rw [this] at hbad; simp at hbad
+
+theorem breach_strict_relation_invalid (P : Problem) (S : Solution) (r : Relation) (hr : r ∈ P.relations)
+    (hk : r.kind = .strict) (hbad : ∀ t, findTour S r.vehicleId (r.shiftIndex.getD 0) = some t →
+      isInfix r.jobs (tourIds t) = false) : validSolution P S = false := by
+  cases hval : validSolution P S with
+  | false => rfl
+  | true =>
+    exfalso
+    have hl := ((valid_iff P S).1 hval).2.2.2.2.2.2.1
+    simp only [relationsOk, List.all_eq_true] at hl
+    have := hl r hr
+    unfold relationOk at this
+    simp only [hk, Bool.and_eq_true] at this
+    cases hf : findTour S r.vehicleId (r.shiftIndex.getD 0) with
+    | none => simp [hf] at this
+    | some t => simp only [hf] at this; rw [hbad t hf] at this; simp at this
+
+/-! ## breaks (`check_breaks`): the counting rule -/
+
+theorem shouldAssign_eq_breakDue (t : Tour) (b : Break) : shouldAssign t b = breakDue t b := by
+  unfold shouldAssign breakDue
+  cases b.policy with
+  | none => rfl
+  | some p => cases p <;> rfl
+
+/-- breach *dropped break*, half 2: fewer breaks served or reported than are due -/
+theorem checker_rejects_missing_break (P : Problem) (S : Solution) (t : Tour) (ht : t ∈ S.tours) (sh : Shift)
+    (hs : vehicleShift P t = .ok sh)
+    (hlt : countP (fun a => a.ty == .brk) (tourActs t)
+             + countP (fun v => v.1 == t.vehicleId && v.2 == t.shiftIndex) S.violations < countP (breakDue t) sh.breaks) :
+    check P S ≠ [] := by
+  apply check_ne_nil_of_group P S .breaks
+  apply groupErrors_ne_nil P S .breaks (firstErrOf (checkBreaksTour P S) S.tours) (by simp [runGroup, checkBreaks])
+  apply firstErrOf_ne_none _ _ t ht
+  unfold checkBreaksTour
+  simp only [hs]
+  split
+  · simp
+  · split
+    · simp
+    · rw [if_pos]
+      · simp
+      · have : shouldAssign t = breakDue t := funext (shouldAssign_eq_breakDue t)
+        rw [this]
+        simp; omega
+
+/-- half 1 -/
+theorem breach_missing_break_invalid (P : Problem) (S : Solution) (t : Tour) (ht : t ∈ S.tours) (sh : Shift)
+    (hs : shiftOf P t = some sh)
+    (hlt : countP (fun a => a.ty == .brk) (tourActs t)
+             + countP (fun v => v.1 == t.vehicleId && v.2 == t.shiftIndex) S.violations < countP (breakDue t) sh.breaks) :
+    validSolution P S = false := by
+  cases hval : validSolution P S with
+  | false => rfl
+  | true =>
+    exfalso
+    have hl := ((valid_iff P S).1 hval).2.2.2.2.2.2.2.1
+    simp only [breaksOk, List.all_eq_true] at hl
+    have := hl t ht
+    unfold breaksTourOk at this
+    simp only [hs, Bool.and_eq_true, decide_eq_true_eq] at this
+    omega
+
+/-! ## the combined statement -/
+
+/-- **The checker accepts valid solutions (partial).** On supported inputs a solution that satisfies the documented rules
+passes the vehicle test, the job presence (partition) test, the routing/statistic group and the limits group of the
+model checker. NOT yet proved from the specification and therefore hypotheses here: acceptance by the load group (the
+positional load formula against the interval fold), by the relations and the breaks group, by the activity matcher and
+the group test. All of them are compared with the real checker and the specification on every generated case. -/
+theorem checker_complete_partial (P : Problem) (S : Solution)
+    (hsup : supported P S = true) (hval : validSolution P S = true)
+    (hload : ∀ r ∈ checkLoad P S, r = none) (hrel : ∀ r ∈ checkRelations P S, r = none)
+    (hbrk : ∀ r ∈ checkBreaks P S, r = none) (hmatch : checkMatch P S = none) (hgroups : checkGroups P S = none)
+    (hnopanic : S.tours.any (fun t => (intervals t.stops).isNone) = false) :
+    check P S = [] := by
+  obtain ⟨hveh, hpart, _, _, hrout, hlim, _, _, _⟩ := (valid_iff P S).1 hval
+  simp only [supported, Bool.and_eq_true, List.all_eq_true] at hsup
+  obtain ⟨hprob, hshape⟩ := hsup
+  simp only [problemShapeOk, Bool.and_eq_true, List.all_eq_true, Bool.not_eq_true'] at hprob
+  obtain ⟨⟨⟨hids, htasks⟩, _⟩, _⟩ := hprob
+  rw [check_eq_nil]
+  refine ⟨hnopanic, ?_⟩
+  intro g
+  rw [groupErrors_eq_nil]
+  cases g with
+  | load => exact hload
+  | relations => exact hrel
+  | breaks => exact hbrk
+  | assignment =>
+    intro r hr
+    simp only [runGroup, checkAssignment, List.mem_cons, List.mem_nil_iff, or_false] at hr
+    rcases hr with rfl | rfl | rfl | rfl
+    · exact vehicles_complete P S hveh
+    · apply presence_complete P S hids _ hpart
+      intro j hj hnil
+      have := (htasks j hj).1
+      rw [hnil] at this
+      simp at this
+    · exact hmatch
+    · exact hgroups
+  | routing => exact routing_complete P S hrout
+  | limits => exact limits_complete P S (fun t ht => hshape t ht) hlim
+
+end C12
+
+namespace C12
+open Spec
+
+/-! ## non-vacuity: a concrete problem, a valid solution and breaches of it -/
+
+def exJob (id : String) (loc : Nat) : Job :=
+  { id, group := none,
+    tasks := [{ kind := .delivery, demand := [1], places := [{ loc, dur := 5, tws := [⟨0, none⟩], tag := none }] }] }
+
+def exShift : Shift := { startEarliest := 0, startLoc := 0, end_ := some { latest := 1000, loc := 0 }, breaks := [], reloads := [] }
+
+def exVehicle : VType :=
+  { typeId := "t", ids := ["v1", "v2"], profile := 0, scaleNum := 1, scaleDen := 1, shifts := [exShift], capacity := [2],
+    maxDistance := some 30, maxDuration := none, tourSize := some 2 }
+
+def exProblem : Problem :=
+  { n := 3, profiles := [{ dur := [0, 10, 10, 10, 0, 10, 10, 10, 0], dist := [0, 10, 10, 10, 0, 10, 10, 10, 0] }],
+    jobs := [exJob "j1" 1, exJob "j2" 2], vehicles := [exVehicle],
+    relations := [{ kind := .strict, jobs := ["departure", "j1"], vehicleId := "v1", shiftIndex := none }] }
+
+def exAct (id : String) (ty : ATy) : Act := { jobId := id, ty, tag := none, loc := none, time := none }
+
+def exTour (load0 : Int) (arr1 : Int) : Tour :=
+  { vehicleId := "v1", typeId := "t", shiftIndex := 0, stat := { distance := 30, duration := 40 },
+    stops := [{ loc := 0, arrival := 0, departure := 0, distance := 0, load := [load0], acts := [exAct "departure" .departure] },
+              { loc := 1, arrival := arr1, departure := 15, distance := 10, load := [1], acts := [exAct "j1" .delivery] },
+              { loc := 2, arrival := 25, departure := 30, distance := 20, load := [0], acts := [exAct "j2" .delivery] },
+              { loc := 0, arrival := 40, departure := 40, distance := 30, load := [0], acts := [exAct "arrival" .arrival] }] }
+
+def exSolution : Solution :=
+  { stat := { distance := 30, duration := 40 }, tours := [exTour 2 10], unassigned := [], violations := [] }
+
+/-- the example is supported, valid by the specification and accepted by the model checker (so the hypotheses of
+`checker_complete_partial`, `limits_complete`, `routing_complete`, `presence_complete` are satisfiable) -/
+example : supported exProblem exSolution = true ∧ validSolution exProblem exSolution = true ∧
+    check exProblem exSolution = [] := by decide
+
+/-- misreported load at the departure stop: specification violated, checker rejects (load group) -/
+example : validSolution exProblem { exSolution with tours := [exTour 1 10] } = false ∧
+    rejecting exProblem { exSolution with tours := [exTour 1 10] } = [.load] := by decide
+
+/-- load above capacity -/
+example : lfit exVehicle.capacity [3] = false ∧
+    validSolution exProblem { exSolution with tours := [exTour 3 10] } = false ∧
+    check exProblem { exSolution with tours := [exTour 3 10] } ≠ [] := by decide
+
+/-- arrival shifted by two seconds: routing group -/
+example : validSolution exProblem { exSolution with tours := [exTour 2 12] } = false ∧
+    rejecting exProblem { exSolution with tours := [exTour 2 12] } = [.assignment, .routing] := by decide
+
+/-- assigned and unassigned -/
+example : validSolution exProblem { exSolution with unassigned := ["j1"] } = false ∧
+    rejecting exProblem { exSolution with unassigned := ["j1"] } = [.assignment] := by decide
+
+/-- limit breaches by tightening the problem -/
+example : rejecting { exProblem with vehicles := [{ exVehicle with maxDistance := some 29 }] } exSolution = [.limits] ∧
+    rejecting { exProblem with vehicles := [{ exVehicle with tourSize := some 1 }] } exSolution = [.limits] ∧
+    validSolution { exProblem with vehicles := [{ exVehicle with tourSize := some 1 }] } exSolution = false := by decide
+
+/-- broken relations: `strict` with a gap, `any` pinned to a vehicle without a tour (S17) -/
+example :
+    rejecting { exProblem with relations := [{ kind := .strict, jobs := ["departure", "j2"], vehicleId := "v1", shiftIndex := none }] }
+      exSolution = [.relations] ∧
+    rejecting { exProblem with relations := [{ kind := .any, jobs := ["j1"], vehicleId := "v2", shiftIndex := none }] }
+      exSolution = [.relations] ∧
+    validSolution { exProblem with relations := [{ kind := .any, jobs := ["j1"], vehicleId := "v2", shiftIndex := none }] }
+      exSolution = false := by decide
+
+/-- the quirk of `MultiDimLoad ==`: two loads of size zero are not equal -/
+example : leq [] [] = false ∧ leq [0] [] = true := by decide
+
+/-- D11 (open deviation): an open tour whose last stop is a reload stop that also serves a job. The loads below are the
+physical ones (1 on board at departure, 0 after the first delivery; the reload takes 1 on board, which is delivered in the
+same stop), yet the checker reports a load mismatch because the last stop never starts an interval of its own. -/
+def d11Shift : Shift :=
+  { startEarliest := 0, startLoc := 0, end_ := none, breaks := [],
+    reloads := [{ loc := 0, dur := 0, tws := [⟨0, none⟩], tag := none }] }
+
+def d11Vehicle : VType :=
+  { typeId := "t", ids := ["v1"], profile := 0, scaleNum := 1, scaleDen := 1, shifts := [d11Shift], capacity := [2],
+    maxDistance := none, maxDuration := none, tourSize := none }
+
+def d11Problem : Problem :=
+  { n := 3, profiles := exProblem.profiles, jobs := [exJob "j1" 1, exJob "j2" 0], vehicles := [d11Vehicle], relations := [] }
+
+def d11Solution : Solution :=
+  { stat := { distance := 20, duration := 25 }, unassigned := [], violations := [],
+    tours := [{ vehicleId := "v1", typeId := "t", shiftIndex := 0, stat := { distance := 20, duration := 25 },
+                stops := [{ loc := 0, arrival := 0, departure := 0, distance := 0, load := [1], acts := [exAct "departure" .departure] },
+                          { loc := 1, arrival := 10, departure := 15, distance := 10, load := [0], acts := [exAct "j1" .delivery] },
+                          { loc := 0, arrival := 25, departure := 25, distance := 20, load := [0],
+                            acts := [{ jobId := "reload", ty := .reload, tag := none, loc := none, time := some (25, 25) },
+                                     { jobId := "j2", ty := .delivery, tag := none, loc := none, time := some (25, 30) }] }] }] }
+
+example : rejecting d11Problem d11Solution = [.load] ∧ supported d11Problem d11Solution = false := by decide
 
 end C12
